@@ -19,7 +19,42 @@ Supported subset (anything else raises TranslationError naming the AST node):
                to a function translated in another unit (*extern*) pass the record's fields one by one
 Statement lists are translated continuation-style; a local assignment becomes a shadowing `let`.
 Type mapping: signed integer types -> Int (overflow freedom is a separate, proved side condition),
-unsigned 64-bit -> UInt64 (wrapping, as in C++), bool -> Bool, scoped enums -> Lean inductives.
+unsigned 64-bit -> UInt64 (wrapping, as in C++), bool -> Bool, scoped enums -> Lean inductives, `VertexFlags` (a bit mask
+with overloaded `&` / `|`) -> UInt64.
+
+Pointers are not values of the model.  A pointer used as a truth value / compared with nullptr is the Boolean pseudo-member
+`<path>_nonnull`; pointers compared with each other (or returned) are `Nat` identities: `e_addr` = which record the parameter
+`e` is, a pointer member `e.outrec->front_edge` = the flattened path `e_outrec_front_edge`.  A pointer (or record
+reference) *local* names a record flow-sensitively (`Active* e2 = e.prev_in_ael; … e2 = e2->next_in_ael;`).
+Methods of a class template specialisation (`Rect64::Contains`) are looked up with `scope=(class, template argument)`; a
+`Point64` returned by value / held in a local becomes a tuple / one local per field; calls of functions of the same unit with
+record arguments pass the fields one by one (overloads are told apart by clang's declaration id).
+
+Skeletons (`skel=True`): functions that also call untranslated code and write through pointers (IntersectEdges,
+AddLocalMinPoly, Split, …).  The generated definition returns the final value of every *scalar* member the function assigns
+(alphabetically by flattened name), assigned reference parameters, and the log `acts : List (String × List Int)` of
+  * every call of an untranslated callee, `name(record arguments by path)` with its scalar arguments as integers,
+  * every pointer assignment `location := record` (later reads through that location follow the new target).
+After an untranslated call, a member that the callee may assign — computed from the same AST dump: `mod_analysis`, transitive,
+by field declaration — is unknown: reading it yields a separate argument `<path>_after<k>` (k = number of the call site).
+A loop is not unrolled: whatever it may assign is a fresh argument `…_after<k>` afterwards.  Distinct paths are assumed to
+denote distinct records unless the code compares them.  An `if` / `switch` that always falls through is translated as an
+expression producing the values it assigns and emitted as an auxiliary definition `<function>.m<k>` (numbered in source
+order) so that theorems can be stated block by block; one that also contains `return`s yields (returned?, value, values…)
+and the rest of the function follows once.  (Decision functions without `skel` keep the older scheme: the rest of the
+function is copied into every branch.)
+
+Fragments (`frag=[…]`): one statement or condition of a function selected by a path of (`Kind`, k-th in source order) steps
+and `body` / `cond` / `then` / `else` / `init` — the condition or one iteration of a loop over the AEL, the code between two
+loops.  Locals declared outside the fragment are arguments (and results, if assigned).
+
+Doubles (`dbl=True`, `opaque=(callee,…)`): double arithmetic is not translated.  The listed callees (`CrossProduct`,
+`DotProduct`, `GetSegmentIntersectPt`) become function parameters of the generated definition, doubles are values of an
+abstract type `D` with `<`, `=` and the literal 0; a `Point64&` the function fills in is a pair of result fields.
+
+A definition of `UNIT_LEVEL_FAILURE` that cannot be translated turns its whole unit into a file that does not compile; any
+other one is just missing from the generated file (reported under `contained_errors`), so that exactly the theorems that
+mention it stop compiling.
 """
 import json, os, re, subprocess, sys, hashlib, tempfile
 
@@ -30,6 +65,20 @@ SRC = os.path.join(REPO, "CPP/Clipper2Lib/src")
 
 class TranslationError(Exception):
     pass
+
+
+class Part(str):
+    """a member name inside a flattened path, remembering which field declaration it refers to (clang id)"""
+    fid = None
+
+
+def part(name, fid):
+    p_ = Part(name)
+    p_.fid = fid
+    return p_
+
+
+NULLPATH = "<nullptr>"   # what `resolve` returns for a pointer member the function itself has set to nullptr
 
 
 # ---------------------------------------------------------------------------------------------
@@ -67,6 +116,36 @@ def clang_ast(tu_text, filt, extra_inc=None, defines=()):
     return objs
 
 
+_AST_CACHE = {}
+
+
+def unit_ast(tu_text, extra_inc=None, defines=()):
+    """The JSON AST of every declaration inside `namespace Clipper2Lib` of the translation unit (one clang run per unit;
+    every function, constant and enum is then looked up in this dump)."""
+    key = (tu_text, extra_inc, tuple(defines), REPO)
+    if key not in _AST_CACHE:
+        _AST_CACHE[key] = clang_ast(tu_text, "Clipper2Lib", extra_inc, defines)
+    return _AST_CACHE[key]
+
+
+def named_subtrees(objs, name):
+    """all declarations called `name` (any kind) in the dump"""
+    out = []
+
+    def walk(n):
+        if not isinstance(n, dict):
+            return
+        if n.get("name") == name and n.get("kind", "").endswith("Decl"):
+            out.append(n)
+            return
+        for c in inner(n):
+            walk(c)
+
+    for o in objs:
+        walk(o)
+    return out
+
+
 def inner(n):
     return [c for c in n.get("inner", []) if c]
 
@@ -84,7 +163,7 @@ def find_bodies(objs, name, want_types=None):
         if not isinstance(n, dict):
             return
         k = n.get("kind")
-        if k in ("FunctionDecl", "CXXMethodDecl") and n.get("name") == name:
+        if k in ("FunctionDecl", "CXXMethodDecl", "CXXConstructorDecl") and n.get("name") == name:
             if any(c.get("kind") == "CompoundStmt" for c in inner(n)):
                 out.append(n)
         for c in inner(n):
@@ -141,15 +220,42 @@ def lean_type(t):
         return "UInt64"
     if t1 in ENUMS:
         return ENUMS[t1]
+    if t1 in BITMASK_ENUMS:
+        return "UInt64"
     if t1 == "UInt128Struct":
         return "(UInt64 × UInt64)"
     if t0 == "double":
-        return "Float"
+        return "D" if _DBL[0] else "Float"
     raise TranslationError("unsupported type '%s'" % t)
+
+
+# `double` values: normally unsupported in arithmetic; for a spec with `dbl=True` they are values of an abstract type `D` that the
+# generated definition is polymorphic in (only `<`, `>`, `==`, `!=` and the literal 0 are translated), produced by *opaque* callees
+# (`CrossProduct`, `DotProduct`, …) that become function parameters of the generated definition
+_DBL = [False]
+DBL_BINDERS = "{D : Type} [LT D] [DecidableLT D] [DecidableEq D] [OfNat D 0]"
 
 
 def is_unsigned(t):
     return lean_type(t) == "UInt64"
+
+
+def is_pointer(t):
+    """a raw pointer type (`Active *`, `const OutPt *const`)"""
+    return strip_type(t).rstrip().endswith("*") or strip_type(t).rstrip().endswith("*const")
+
+
+# `enum class X : uint32_t` used as a bit mask through overloaded `operator&` / `operator|`: translated as UInt64 masks
+BITMASK_ENUMS = ("VertexFlags",)
+# records a function may return by value / hold in a local: their fields become a tuple / one scalar local per field
+VALUE_RECORDS = {"Point<long>": [("x", "Int"), ("y", "Int")]}
+
+
+def value_record(t):
+    t1 = strip_type(t).split("::")[-1].strip()
+    if t1 == "Point64":
+        t1 = "Point<long>"
+    return VALUE_RECORDS.get(t1)
 
 
 RECORD_FIELDS = {"UInt128Struct": ["lo", "hi"]}
@@ -163,7 +269,52 @@ def lc(s):
 # translator for one function
 
 class Fn:
-    def __init__(self, node, lean_name, known_fns, consts, inline_fns, throws=False, accessors=(), externs=None):
+    def __init__(self, node, lean_name, known_fns, consts, inline_fns, throws=False, accessors=(), externs=None,
+                 enum_values=None, known_sigs=None, known_ids=None):
+        self.enum_values = enum_values or {}   # bit-mask enum name -> {constant name: value}
+        self.known_sigs = known_sigs or {}     # lean name -> (generated signature, declared C parameter names) of this unit
+        self.known_ids = known_ids or {}       # clang id of a translated FunctionDecl -> lean name (resolves overloads)
+        self.overloads = {}                    # C name -> how many functions of that name this unit translates
+        self.roots = set()                     # names of the record / pointer parameters of the function
+        self.frag_is_loop_body = False
+        self.used_params = set()
+        self.result_names = None
+        self.inline_ops = {}
+        self.inline_depth = 0
+        self.assigned = set()                  # locals assigned since the enclosing `phi` started
+        self.acts_dirty = False
+        self.local_types = {}
+        self.phis = {}
+        self.in_phi = set()
+        self.exit_hook = None
+        self.frag_exits, self.frag_ret = False, None
+        self.opaque = set()                    # callees kept as function parameters (`dbl` specs)
+        self.opaque_sigs = {}
+        self.rec_outs = {}
+        self.dry = 0
+        self.aux, self.aux_keys = [], {}       # auxiliary definitions (merged blocks) to emit in front of the function
+        self.cname = lean_name
+        self.local_ver = {}                    # reassigned local / parameter -> tag of its current value (names of `vec[i]`)
+        self.asg_sites = {}
+        self.frag = None                       # statement selector when only part of the function is translated
+        self.skel = False                      # skeleton mode: member writes are results, untranslated calls are logged
+        self.modsets = {}                      # C function name -> member names it (transitively) may assign
+        self.pure = set()                      # untranslated callees without side effects (not logged)
+        self.member_parts = {}                 # generated parameter name -> (root, [member names]) it was flattened from
+        self.path_alias = {}                   # pointer location -> (record now stored there | None, clock of the write)
+        self.wrote = {}                        # scalar location -> clock of this function's last write to it
+        self.ver = {}                          # member name -> (clock, site) of the last opaque call that may assign it
+        self.clock = 0
+        self.sites = {}
+        self.aliases = {}
+        self.locals_ = set()
+        self.local_records = {}
+        self.ref_roots = set()                 # record parameters passed by reference (never null)
+        self.written_all = {}                  # scalar member locations the function assigns -> lean type
+        self.free_locals = {}                  # fragment mode: scalar locals declared outside the fragment -> lean type
+        self.free_assigned = {}                # ... those the fragment assigns (they are results)
+        self.uses_acts = False
+        self.bodies_by_id = {}
         self.node = node
         self.lean_name = lean_name
         self.known = known_fns          # C name -> lean name for calls with scalar arguments
@@ -183,14 +334,15 @@ class Fn:
         loc = n.get("range", {}).get("begin", {})
         raise TranslationError("%s: unsupported %s %s (line %s)" % (self.lean_name, n.get("kind"), msg, loc.get("line", "?")))
 
-    def member_path(self, n):
-        """MemberExpr chain rooted at a param / this -> flattened lean parameter name, or None."""
+    def chain(self, n):
+        """MemberExpr chain -> (root, parts): root = None for `this`, otherwise the name of the record the chain starts at
+        (a parameter after inlining substitution, or whatever a pointer local currently denotes); None if not such a chain."""
         parts = []
         cur = n
         while True:
             k = cur.get("kind")
             if k == "MemberExpr":
-                parts.append(cur["name"])
+                parts.append(part(cur["name"], cur.get("referencedMemberDecl")))
                 cur = inner(cur)[0]
             elif k in ("ImplicitCastExpr", "ParenExpr"):
                 cur = inner(cur)[0]
@@ -198,26 +350,95 @@ class Fn:
                 cur = inner(cur)[0]
             elif k == "CXXOperatorCallExpr" and self.callee_name(inner(cur)[0]) in ("operator->", "operator*"):
                 cur = inner(cur)[1]
+            elif k == "CXXOperatorCallExpr" and self.callee_name(inner(cur)[0]) == "operator[]" and len(inner(cur)) == 3:
+                ix = self.index_name(inner(cur)[2])
+                if ix is None:
+                    return None
+                parts.append(part("at_" + ix, None))      # `vec[i]`: the element is a pseudo-member named after the index
+                cur = inner(cur)[1]
             elif k == "CallExpr" and self.is_accessor_call(cur):
-                parts.append(self.callee_name(inner(cur)[0]))
+                parts.append(part(self.callee_name(inner(cur)[0]), None))
                 cur = inner(cur)[1]
             elif k == "CXXThisExpr":
                 root = None
                 break
             elif k == "DeclRefExpr":
                 rd = cur["referencedDecl"]
+                if rd["kind"] == "VarDecl" and rd["name"] in self.aliases:
+                    root = self.aliases[rd["name"]]
+                    break
+                if rd["kind"] == "VarDecl" and self.frag is not None and rd["name"] not in self.locals_ and \
+                        rd["name"] not in self.consts and (is_pointer(qual(cur)) or self.is_record(cur)):
+                    root = rd["name"]           # a pointer / record local declared outside the translated fragment
+                    self.roots.add(root)
+                    break
                 if rd["kind"] != "ParmVarDecl":
                     return None
-                root = rd["name"]
+                root = self.subst[-1].get(rd["name"], rd["name"])
                 break
             else:
                 return None
         parts.reverse()
-        if root is not None:
-            base = self.subst[-1].get(root, root)
-            name = "_".join([base] + parts)
-        else:
-            name = "_".join(parts)
+        return root, parts
+
+    def index_name(self, n):
+        """identifier for a container index: a local / parameter (with a version suffix once it has been reassigned), such a
+        name plus or minus a literal, a literal"""
+        while n.get("kind") in ("ImplicitCastExpr", "ParenExpr", "CStyleCastExpr", "CXXStaticCastExpr", "CXXFunctionalCastExpr"):
+            n = inner(n)[0]
+        k = n.get("kind")
+        if k == "IntegerLiteral":
+            return str(n["value"])
+        if k == "DeclRefExpr" and n["referencedDecl"]["kind"] in ("VarDecl", "ParmVarDecl"):
+            nm = n["referencedDecl"]["name"]
+            try:
+                lean_type(qual(n))
+            except TranslationError:
+                return None
+            self.expr(n)        # registers a free local / used parameter
+            return self.local_ver.get(nm, nm)
+        if k == "BinaryOperator" and n.get("opcode") in ("+", "-"):
+            a, b = inner(n)
+            na, nb = self.index_name(a), self.index_name(b)
+            if na is None or nb is None:
+                return None
+            return "%s_%s_%s" % (na, "add" if n["opcode"] == "+" else "sub", nb)
+        return None
+
+    def resolve(self, root, parts, location=False):
+        """flattened name of what `root.p1.p2…` denotes *now*.  Without writes or opaque calls before this point it is
+        `root_p1_p2…` (the value the function received).  Step by step: a pointer member this function has overwritten
+        leads to the record written there; a member an opaque callee may have overwritten since (see `havoc`) is a fresh
+        unknown `…_after<k>`.  `location=True`: the name of the last member's storage location itself (for a write)."""
+        cur = root or ""
+        for i, p_ in enumerate(parts):
+            loc = (cur + "_" + p_) if cur else p_
+            last = i == len(parts) - 1
+            if location and last:
+                return loc
+            v = self.ver.get(getattr(p_, "fid", None) or p_, (0, 0))
+            w = self.path_alias.get(loc)
+            if w is not None and w[1] >= v[0]:
+                if w[0] is None:
+                    if not last:
+                        raise TranslationError("%s: dereference of a pointer the function has just set to nullptr (%s)" % (self.lean_name, loc))
+                    return NULLPATH
+                cur = w[0]
+            elif loc in self.wrote and self.wrote[loc] >= v[0]:
+                cur = loc
+            elif v[0] > 0:
+                cur = "%s_after%d" % (loc, v[1])
+            else:
+                cur = loc
+        return cur
+
+    def member_path(self, n):
+        """MemberExpr chain rooted at a param / this -> flattened lean parameter name, or None."""
+        c = self.chain(n)
+        if c is None:
+            return None
+        name = self.resolve(c[0], c[1])
+        self.member_parts.setdefault(name, (c[0], list(c[1]), None))
         return name
 
     # ---- expressions
@@ -235,14 +456,24 @@ class Fn:
             return "(%s : Int)" % v
         if k == "CXXBoolLiteralExpr":
             return "true" if n["value"] else "false"
+        if k == "FloatingLiteral" and _DBL[0]:
+            if float(n.get("value", "1")) == 0:
+                return "(0 : D)"
+            self.err(n, "floating literal other than 0")
         if k == "DeclRefExpr":
             rd = n["referencedDecl"]
             if rd["kind"] == "EnumConstantDecl":
+                en = strip_type(rd.get("type", {}).get("qualType", "")).split("::")[-1]
+                if en in BITMASK_ENUMS:
+                    if rd["name"] not in self.enum_values.get(en, {}):
+                        self.err(n, "value of %s::%s unknown" % (en, rd["name"]))
+                    return "(%d : UInt64)" % self.enum_values[en][rd["name"]]
                 return "." + lc(rd["name"])
             if rd["kind"] == "ParmVarDecl":
                 nm = rd["name"]
                 if nm in self.subst[-1]:
                     return self.subst[-1][nm]
+                self.used_params.add(nm)
                 return nm
             if rd["kind"] == "VarDecl":
                 nm = rd["name"]
@@ -251,10 +482,17 @@ class Fn:
                 if nm in self.consts:
                     v = self.consts[nm]
                     return "(%d : %s)" % (v, lean_type(qual(n)))
+                if self.frag is not None:
+                    # a scalar local declared outside the translated fragment: an input (and, if assigned, a result)
+                    self.free_locals[nm] = lean_type(qual(n))
+                    return nm
                 self.err(n, "reference to unknown variable " + nm)
             self.err(n, "DeclRef to " + rd["kind"])
         if k == "MemberExpr":
             base = inner(n)[0]
+            lr = self.local_record_field(n)
+            if lr is not None:
+                return lr
             # field of a local record (UInt128Struct)
             bt = strip_type(qual(base)).split("::")[-1]
             if bt in RECORD_FIELDS and self.member_path(n) is None:
@@ -281,12 +519,16 @@ class Fn:
                 cur = sub
                 while cur.get("kind") in ("ImplicitCastExpr", "ParenExpr"):
                     cur = inner(cur)[0]
-                mp = self.member_path_noreg(cur) if cur.get("kind") == "MemberExpr" else None
-                if mp is None:
-                    self.err(n, "pointer truth value not rooted at a parameter")
-                nm = mp + "_nonnull"
-                self.members[nm] = "Bool"
-                return nm
+                return self.nonnull(cur, n)
+            if ck in ("IntegralToFloating", "FloatingCast") and _DBL[0]:
+                lit = self.strip(sub)
+                if lit.get("kind") in ("IntegerLiteral", "FloatingLiteral") and float(lit.get("value", "1")) == 0:
+                    return "(0 : D)"
+                if ck == "FloatingCast":
+                    return self.expr(sub)
+                self.err(n, "conversion of an integer to double (only the literal 0 is translated)")
+            if ck == "FloatingToBoolean" and _DBL[0]:
+                return "(decide (%s ≠ (0 : D)))" % self.expr(sub)
             if ck == "IntegralToBoolean":
                 src = lean_type(qual(sub))
                 if src == "Bool":
@@ -309,13 +551,20 @@ class Fn:
         if k == "BinaryOperator":
             op = n["opcode"]
             a, b = inner(n)
+            if op in ("==", "!=") and (is_pointer(qual(a)) or is_pointer(qual(b))):
+                return self.ptr_compare(op, a, b, n)
             ta = lean_type(qual(a))
             tr = lean_type(qual(n))
-            ea, eb = self.expr(a), self.expr(b)
+            ea = self.expr(a)
+            if self.skel and ((op == "&&" and ea == "false") or (op == "||" and ea == "true")):
+                return ea      # short circuit on a pointer the function itself has just set to nullptr
+            eb = self.expr(b)
             if op in ("<", ">", "<=", ">="):
                 lop = {"<": "<", ">": ">", "<=": "≤", ">=": "≥"}[op]
                 if ta == "Bool":
                     self.err(n, "ordering on Bool")
+                if ta == "D" and op in ("<=", ">="):
+                    self.err(n, "non-strict comparison of doubles")
                 return "(decide (%s %s %s))" % (ea, lop, eb)
             if op == "==":
                 return "(decide (%s = %s))" % (ea, eb)
@@ -325,6 +574,8 @@ class Fn:
                 return "(%s && %s)" % (ea, eb)
             if op == "||":
                 return "(%s || %s)" % (ea, eb)
+            if op in ("+", "-", "*", "/") and tr == "D":
+                self.err(n, "double arithmetic")
             if op in ("+", "-", "*"):
                 if tr == "Bool":
                     self.err(n, "arithmetic on Bool")
@@ -360,10 +611,30 @@ class Fn:
                 # lambda call: kids[1] is the lambda object, rest are args
                 f = self.expr(kids[1])
                 return "(%s %s)" % (f, " ".join(self.expr(a) for a in kids[2:]))
+            if nm in ("operator==", "operator!=") and len(kids) == 3 and self.is_record(kids[1]):
+                c0 = callee
+                while c0.get("kind") in ("ImplicitCastExpr", "ParenExpr"):
+                    c0 = inner(c0)[0]
+                fnode = self.inline_ops.get(c0.get("referencedDecl", {}).get("id")) if c0.get("kind") == "DeclRefExpr" else None
+                if fnode is None:
+                    self.err(n, "%s on records without an inlinable body" % nm)
+                return self.inline_call(fnode, kids[1:], n)
             if nm == "operator==":
                 return "(decide (%s = %s))" % (self.expr(kids[1]), self.expr(kids[2]))
             if nm == "operator!=":
                 return "(decide (%s ≠ %s))" % (self.expr(kids[1]), self.expr(kids[2]))
+            if nm == "operator[]" and len(kids) == 3 and not self.is_record(n):
+                mp = self.member_path(n)
+                if mp is None:
+                    self.err(n, "container element not rooted at a parameter / indexed by something else than a local")
+                lt = lean_type(qual(n))
+                if mp in self.members and self.members[mp] != lt:
+                    self.err(n, "member type clash " + mp)
+                self.members[mp] = lt
+                return mp
+            if nm in ("operator&", "operator|") and len(kids) == 3 and \
+                    strip_type(qual(n)).split("::")[-1] in BITMASK_ENUMS:
+                return "(%s %s %s)" % (self.expr(kids[1]), "&&&" if nm == "operator&" else "|||", self.expr(kids[2]))
             self.err(n, "operator call " + str(nm))
         if k == "CallExpr":
             kids = inner(n)
@@ -373,6 +644,11 @@ class Fn:
                 return "(Clipper.Gen.iabs %s)" % self.expr(args[0])
             if nm in ("max", "min"):
                 return "(%s %s %s)" % (nm, self.expr(args[0]), self.expr(args[1]))
+            if nm in self.opaque:
+                call, outs_, _ = self.opaque_call(n)
+                if outs_:
+                    self.err(n, "opaque callee %s with out-parameters inside an expression" % nm)
+                return call
             if nm in self.inline_fns and any(self.is_record(a) for a in args):
                 return self.inline_call(self.inline_fns[nm], args, n)
             if self.is_accessor_call(n):
@@ -386,12 +662,206 @@ class Fn:
                 return mp
             if nm in self.externs and nm not in self.known and any(self.is_record(a) for a in args):
                 return self.extern_call(nm, args, n)
-            if nm in self.known:
+            tgt = self.known_target(kids[0], nm)
+            if tgt is not None and any(self.is_record(a) for a in args):
+                return self.extern_call(nm, args, n, (tgt,) + tuple(self.known_sigs[tgt]))
+            if tgt is not None:
+                return "(%s %s)" % (tgt, " ".join(self.expr(a) for a in args))
+            if nm in self.known and self.overloads.get(nm, 0) <= 1:
                 return "(%s %s)" % (self.known[nm], " ".join(self.expr(a) for a in args))
             self.err(n, "call to " + str(nm))
         if k == "LambdaExpr":
             return self.lambda_(n)
         self.err(n)
+
+    def known_target(self, callee, nm):
+        """lean name of the translated function of this unit a call refers to (overloads are told apart by clang's id;
+        a name translated once may also be reached through another template instantiation of the same function)"""
+        c = callee
+        while c.get("kind") in ("ImplicitCastExpr", "ParenExpr"):
+            c = inner(c)[0]
+        if c.get("kind") == "DeclRefExpr":
+            t = self.known_ids.get(c["referencedDecl"].get("id"))
+            if t is not None:
+                return t
+        if self.overloads.get(nm, 0) == 1:
+            return self.known.get(nm)
+        return None
+
+    def addr_of(self, path):
+        """the identity of the record a path denotes: a record parameter `e` is `e_addr`; anything reached through a
+        pointer member (`e_outrec`, `op_next`) is identified by that pointer's value, i.e. by the path itself"""
+        return path + "_addr" if path in self.roots else path
+
+    def strip_ptr(self, n):
+        while n.get("kind") in ("ImplicitCastExpr", "ParenExpr", "CStyleCastExpr", "CXXStaticCastExpr") and \
+                n.get("castKind") in (None, "LValueToRValue", "NoOp", "NullToPointer", "BitCast"):
+            if n.get("castKind") == "NullToPointer":
+                return {"kind": "CXXNullPtrLiteralExpr"}
+            n = inner(n)[0]
+        return n
+
+    def record_chain(self, n, ctx):
+        """(root, parts) of the record a pointer-valued expression points to / a record lvalue denotes; NULLPATH for nullptr"""
+        cur = self.strip_ptr(n)
+        while cur.get("kind") in ("CXXConstructExpr", "MaterializeTemporaryExpr", "ExprWithCleanups", "CXXBindTemporaryExpr") \
+                and len(inner(cur)) == 1:
+            cur = self.strip_ptr(inner(cur)[0])      # a record passed / copied by value
+        k = cur.get("kind")
+        if k == "CXXNullPtrLiteralExpr":
+            return NULLPATH
+        if k == "UnaryOperator" and cur.get("opcode") == "&":
+            cur = self.strip_ptr(inner(cur)[0])
+            k = cur.get("kind")
+        c = self.chain(cur) if k in ("MemberExpr", "DeclRefExpr", "CallExpr", "UnaryOperator", "CXXOperatorCallExpr", "CXXThisExpr") else None
+        if c is None:
+            self.err(ctx, "pointer value of kind %s not rooted at a parameter" % k)
+        return c
+
+    def record_name(self, n, ctx):
+        """flattened name (see `resolve`) of the record a pointer-valued expression points to; NULLPATH for nullptr"""
+        c = self.record_chain(n, ctx)
+        if c == NULLPATH:
+            return NULLPATH
+        if c[0] is None and not c[1]:
+            return "this"
+        return self.resolve(c[0], c[1])
+
+    def id_of(self, c, ctx):
+        """Nat-valued identity of the record with chain `c`"""
+        if c == NULLPATH:
+            return "(0 : Nat)"
+        r = "this" if (c[0] is None and not c[1]) else self.resolve(c[0], c[1])
+        if r == NULLPATH:
+            return "(0 : Nat)"
+        nm = self.addr_of(r)
+        if nm in self.members and self.members[nm] != "Nat":
+            self.err(ctx, "member type clash " + nm)
+        self.members[nm] = "Nat"
+        self.member_parts.setdefault(nm, (c[0], list(c[1]), "id"))
+        return nm
+
+    def nonnull_of(self, c, ctx):
+        """Boolean: is the pointer that leads to the record with chain `c` non-null"""
+        if c == NULLPATH:
+            return "false"
+        r = "this" if (c[0] is None and not c[1]) else self.resolve(c[0], c[1])
+        if r == NULLPATH:
+            return "false"
+        if r in self.ref_roots or r == "this":
+            return "true"
+        nm = r + "_nonnull"
+        self.members[nm] = "Bool"
+        self.member_parts.setdefault(nm, (c[0], list(c[1]), "nonnull"))
+        return nm
+
+    def ptr_path(self, n, ctx):
+        """the model's name for a pointer value: `&e` / a pointer parameter `op` -> `e_addr` / `op_addr` (who the record is),
+        a pointer member `e.outrec->front_edge` -> the flattened member path"""
+        return self.id_of(self.record_chain(n, ctx), ctx)
+
+    def nonnull(self, cur, ctx):
+        """`p` used as a truth value / compared with nullptr: a Boolean pseudo-member `<path>_nonnull`"""
+        return self.nonnull_of(self.record_chain(cur, ctx), ctx)
+
+    def ptr_compare(self, op, a, b, n):
+        """`p == q` on raw pointers: identity of the records pointed to (Nat-valued pseudo-members); against `nullptr`
+        the same Boolean as the truth value of the pointer"""
+        sa, sb = self.strip_ptr(a), self.strip_ptr(b)
+        if sb.get("kind") == "CXXNullPtrLiteralExpr" or sa.get("kind") == "CXXNullPtrLiteralExpr":
+            other = sa if sb.get("kind") == "CXXNullPtrLiteralExpr" else sb
+            e = self.nonnull(other, n)
+            return e if op == "!=" else "(!%s)" % e
+        pa, pb = self.ptr_path(a, n), self.ptr_path(b, n)
+        return "(decide (%s %s %s))" % (pa, "=" if op == "==" else "≠", pb)
+
+    def local_record_field(self, n):
+        """`result.x` for a local `Point64 result` -> the scalar local `result_x`"""
+        base = inner(n)[0]
+        while base.get("kind") in ("ImplicitCastExpr", "ParenExpr"):
+            base = inner(base)[0]
+        if base.get("kind") == "DeclRefExpr" and base["referencedDecl"]["kind"] == "VarDecl" and \
+                base["referencedDecl"]["name"] in self.local_records:
+            nm = base["referencedDecl"]["name"]
+            if n["name"] not in [f_ for f_, _ in self.local_records[nm]]:
+                self.err(n, "unknown field %s of local record %s" % (n["name"], nm))
+            return "%s_%s" % (nm, n["name"])
+        return None
+
+    def record_fields(self, n, ctx):
+        """the field values of a record-valued expression (`Point64(a, b)`, a local record, a copy of either)"""
+        flds = value_record(qual(n))
+        cur = n
+        while True:
+            k = cur.get("kind")
+            kids = inner(cur)
+            if k in ("ExprWithCleanups", "MaterializeTemporaryExpr", "CXXBindTemporaryExpr", "ImplicitCastExpr",
+                     "CXXFunctionalCastExpr", "ParenExpr") and len(kids) == 1:
+                cur = kids[0]
+            elif k == "CXXConstructExpr" and len(kids) == 1 and value_record(qual(kids[0])):
+                cur = kids[0]      # copy / move construction
+            else:
+                break
+        k = cur.get("kind")
+        if k == "DeclRefExpr" and cur["referencedDecl"]["kind"] == "VarDecl" and cur["referencedDecl"]["name"] in self.local_records:
+            nm = cur["referencedDecl"]["name"]
+            return ["%s_%s" % (nm, f_) for f_, _ in flds]
+        if k in ("CXXTemporaryObjectExpr", "CXXConstructExpr") and len(inner(cur)) == len(flds):
+            out = []
+            for a, (f_, t_) in zip(inner(cur), flds):
+                if lean_type(qual(a)) != t_:
+                    self.err(ctx, "record field %s built from a %s" % (f_, qual(a)))
+                out.append(self.expr(a))
+            return out
+        if k in ("MemberExpr", "DeclRefExpr", "UnaryOperator", "CallExpr", "CXXOperatorCallExpr"):
+            mp = self.member_path_noreg(cur)
+            if mp is not None:
+                out = []
+                for f_, t_ in flds:
+                    full = "%s_%s" % (mp, f_)
+                    if full in self.members and self.members[full] != t_:
+                        self.err(ctx, "member type clash " + full)
+                    self.members[full] = t_
+                    out.append(full)
+                return out
+        self.err(ctx, "record value of kind %s" % k)
+
+    def record_value(self, n, ctx):
+        return "(" + ", ".join(self.record_fields(n, ctx)) + ")"
+
+    def opaque_call(self, n):
+        """call of a configured *opaque* callee (double arithmetic the translation does not enter): the callee becomes a function
+        parameter of the generated definition.  Record arguments are passed field by field; a non-const record reference is an
+        out-parameter: the call then returns (C++ result, new field values…).  -> (lean term, names assigned, result type)"""
+        kids = inner(n)
+        nm = self.callee_name(kids[0])
+        c0 = kids[0]
+        while c0.get("kind") in ("ImplicitCastExpr", "ParenExpr"):
+            c0 = inner(c0)[0]
+        fty = c0.get("type", {}).get("qualType", "")
+        ptypes = [x.strip() for x in fty[fty.index("(") + 1:fty.rindex(")")].split(",")] if "(" in fty else []
+        args, atys, outs_, otys = [], [], [], []
+        for i_, a in enumerate(kids[1:]):
+            flds = value_record(qual(a))
+            if flds:
+                vals = self.record_fields(a, n)
+                args += vals
+                atys += [t_ for _, t_ in flds]
+                pt_ = ptypes[i_] if i_ < len(ptypes) else ""
+                if "&" in pt_ and "const" not in pt_:
+                    outs_ += vals
+                    otys += [t_ for _, t_ in flds]
+            elif self.is_record(a):
+                self.err(n, "record argument of opaque callee %s" % nm)
+            else:
+                args.append(self.expr(a))
+                atys.append(lean_type(qual(a)))
+        rty = lean_type(qual(n))
+        full = rty if not outs_ else "(" + " × ".join([rty] + otys) + ")"
+        sig = " → ".join(atys + [full])
+        if self.opaque_sigs.setdefault(nm, sig) != sig:
+            self.err(n, "opaque callee %s used at two different types" % nm)
+        return "(%s %s)" % (nm, " ".join(args)), outs_, rty
 
     def is_record(self, a):
         try:
@@ -407,6 +877,8 @@ class Fn:
             return c["referencedDecl"]["name"]
         if c.get("kind") == "UnresolvedLookupExpr":
             return c.get("name")
+        if c.get("kind") == "MemberExpr" and inner(c) and inner(c)[0].get("kind") == "CXXThisExpr":
+            return c.get("name")     # a method of the same object, called as `Split(e, pt)`
         return None
 
     def convert(self, e, src, dst, node):
@@ -425,6 +897,8 @@ class Fn:
             return "(Clipper.Gen.ofU64 %s)" % e
         if dst == "Int" and src.startswith("Clipper."):
             return "(Clipper.Gen.enumToInt %s)" % e
+        if dst == "UInt64" and src.startswith("Clipper."):
+            return "(Clipper.Gen.toU64 (Clipper.Gen.enumToInt %s))" % e
         if src == "Int" and dst.startswith("Clipper."):
             return "(Clipper.Gen.enumOfInt %s : %s)" % (e, dst)
         self.err(node, "conversion %s -> %s" % (src, dst))
@@ -449,7 +923,9 @@ class Fn:
         self.subst.append({})
         saved_outs, self.outs = self.outs, []
         saved_throws, self.throws = self.throws, False
+        self.inline_depth += 1
         b = self.stmts(inner(body), None, None)
+        self.inline_depth -= 1
         self.outs, self.throws = saved_outs, saved_throws
         self.subst.pop()
         self.locals_ = saved
@@ -474,6 +950,8 @@ class Fn:
                     if mp is None:
                         self.err(callnode, "record argument not rooted at parameter")
                     sub[p["name"]] = mp
+                elif cur.get("kind") == "DeclRefExpr" and self.member_path_noreg(cur) is not None:
+                    sub[p["name"]] = self.member_path_noreg(cur)     # a pointer local naming a record
                 else:
                     self.err(callnode, "record argument of kind " + cur.get("kind"))
             else:
@@ -484,7 +962,9 @@ class Fn:
         saved_throws, self.throws = self.throws, False
         saved_locals = self.locals_
         self.locals_ = set(saved_locals)
+        self.inline_depth += 1
         b = self.stmts(inner(body), None, None)
+        self.inline_depth -= 1
         self.locals_ = saved_locals
         self.outs, self.throws = saved_outs, saved_throws
         self.subst.pop()
@@ -492,38 +972,23 @@ class Fn:
         return "(%s%s)" % (pre, b)
 
     def member_path_noreg(self, n):
-        parts = []
-        cur = n
-        while True:
-            k = cur.get("kind")
-            if k == "MemberExpr":
-                parts.append(cur["name"])
-                cur = inner(cur)[0]
-            elif k in ("ImplicitCastExpr", "ParenExpr") or (k == "UnaryOperator" and cur.get("opcode") == "*"):
-                cur = inner(cur)[0]
-            elif k == "CallExpr" and self.is_accessor_call(cur):
-                parts.append(self.callee_name(inner(cur)[0]))
-                cur = inner(cur)[1]
-            elif k == "DeclRefExpr" and cur["referencedDecl"]["kind"] == "ParmVarDecl":
-                root = cur["referencedDecl"]["name"]
-                break
-            else:
-                return None
-        parts.reverse()
-        return "_".join([self.subst[-1].get(root, root)] + parts)
+        return self.member_path(n)
 
     def is_accessor_call(self, n):
         kids = inner(n)
         return len(kids) == 2 and self.callee_name(kids[0]) in self.accessors and self.is_record(kids[1])
 
-    def extern_call(self, nm, args, n):
-        """call of a function translated in another unit.  `self.externs[nm]` = (lean name, generated signature, declared
-        C parameter names).  The generated signature lists scalar parameters by name and record parameters field by field
-        (`pt1_x pt1_y …`, alphabetically); each argument is matched to its parameter through the *declared* position."""
-        lean_name, sig, decl = self.externs[nm]
+    def extern_call(self, nm, args, n, target=None):
+        """call of a function translated in another unit (or, with `target`, earlier in this unit) that takes records.
+        `self.externs[nm]` / `target` = (lean name, generated signature, declared C parameter names, for every generated
+        parameter the member chain it was flattened from).  The generated signature lists scalar parameters by name and
+        record parameters field by field (`pt1_x pt1_y …`, alphabetically); each argument is matched to its parameter through
+        the *declared* position and the callee's chain is appended to the argument's own."""
+        lean_name, sig, decl, cparts = target or self.externs[nm]
         if len(args) != len(decl):
             self.err(n, "extern %s: %d arguments for %d parameters" % (nm, len(args), len(decl)))
         val = {}
+        recs = {}
         for pn, a in zip(decl, args):
             if not self.is_record(a):
                 ty = dict(sig).get(pn)
@@ -531,25 +996,73 @@ class Fn:
                     self.err(n, "extern %s: parameter %s not in the generated signature" % (nm, pn))
                 val[pn] = self.convert(self.expr(a), lean_type(qual(a)), ty, a)
                 continue
-            mp = self.member_path_noreg(self.strip(a))
-            if mp is None:
-                self.err(n, "record argument of extern %s not rooted at a parameter" % nm)
-            flds = [(s_, t_) for s_, t_ in sig if s_.startswith(pn + "_")]
-            if not flds:
-                self.err(n, "extern %s: record parameter %s has no fields in the generated signature" % (nm, pn))
-            for s_, t_ in flds:
-                full = mp + s_[len(pn):]
+            c = self.record_chain(self.strip(a), n)
+            if c == NULLPATH:
+                self.err(n, "nullptr passed as a record to %s" % nm)
+            recs[pn] = c
+        for s_, t_ in sig:
+            if s_ in val:
+                continue
+            cp = cparts.get(s_)
+            if cp is None or cp[0] not in recs:
+                continue
+            c = (recs[cp[0]][0], list(recs[cp[0]][1]) + list(cp[1]))
+            if cp[2] == "id":
+                val[s_] = self.id_of(c, n)
+            elif cp[2] == "nonnull":
+                val[s_] = self.nonnull_of(c, n)
+            else:
+                full = self.resolve(c[0], c[1])
                 if full in self.members and self.members[full] != t_:
                     self.err(n, "member type clash " + full)
                 self.members[full] = t_
+                self.member_parts.setdefault(full, (c[0], c[1], None))
                 val[s_] = full
+        for pn in recs:
+            if not any(cparts.get(s_, (None,))[0] == pn for s_, _ in sig):
+                self.err(n, "extern %s: record parameter %s has no fields in the generated signature" % (nm, pn))
         missing = [s_ for s_, _ in sig if s_ not in val]
         if missing:
             self.err(n, "extern %s: parameters %s not supplied" % (nm, missing))
         return "(%s %s)" % (lean_name, " ".join(val[s_] for s_, _ in sig))
 
+    # ---- flow-sensitive translator state (copied when the continuation is duplicated into two branches)
+    def snapshot(self):
+        return (set(self.locals_), dict(self.aliases), dict(self.path_alias), dict(self.wrote), dict(self.ver), self.clock,
+                dict(self.local_ver))
+
+    def restore(self, snap):
+        self.locals_, self.aliases = set(snap[0]), dict(snap[1])
+        self.path_alias, self.wrote, self.ver, self.clock = dict(snap[2]), dict(snap[3]), dict(snap[4]), snap[5]
+        self.local_ver = dict(snap[6])
+
+    def alias_target(self, n, ctx):
+        """which record a pointer-valued expression points to, as a path: `&e1` -> `e1`, `e.outrec` -> `e_outrec`,
+        a pointer local -> what it currently aliases; None for nullptr"""
+        r = self.record_name(n, ctx)
+        return None if r == NULLPATH else r
+
     # ---- statements (continuation style)
-    def ret(self, e):
+    def scalar_now(self, loc):
+        """current value of a scalar member location this function assigns somewhere"""
+        root, parts = self.member_parts[loc][:2]
+        nm = self.resolve(root, parts)
+        if nm != loc or loc not in self.wrote:
+            self.members[nm] = self.written_all[loc]
+        return nm
+
+    def ret(self, e, fell=False):
+        if self.skel and self.inline_depth == 0:
+            parts = ([e] if e is not None and e != "()" else [])
+            if self.frag_exits:
+                parts = ["false" if fell else "true"] + ([] if self.frag_ret is None else ["default" if fell else e])
+            parts += [self.scalar_now(loc) for loc in sorted(self.written_all)]
+            parts += list(self.outs) + sorted(self.free_assigned)
+            if self.uses_acts:
+                parts.append("acts")
+            if not parts:
+                return "()"
+            return "(" + ", ".join(parts) + ")" if len(parts) > 1 else parts[0]
         if self.outs:
             e = "(" + ", ".join(([e] if e is not None else []) + self.outs) + ")"
         if self.throws:
@@ -574,21 +1087,54 @@ class Fn:
         if not lst:
             if k_norm is not None:
                 return k_norm()
+            if self.frag_exits and self.exit_hook is None:
+                return self.ret(None, fell=True)
             if self.ret_type == "Unit":
                 return self.ret(None) if self.outs else self.ret("()")
             raise TranslationError("%s: control reaches end of non-void function" % self.lean_name)
         s, rest = lst[0], lst[1:]
         k = s.get("kind")
         cont = lambda: self.stmts(rest, k_norm, k_break)
+        if k == "ReturnStmt" and self.exit_hook is not None and self.inline_depth == 0:
+            kids = inner(s)
+            if not kids:
+                return self.exit_hook(None)
+            if self.ret_type == "Nat" and is_pointer(qual(kids[0])):
+                return self.exit_hook(self.ptr_path(kids[0], s))
+            if value_record(qual(kids[0])):
+                return self.exit_hook(self.record_value(kids[0], s))
+            return self.exit_hook(self.expr(kids[0]))
+        if k == "ReturnStmt" and inner(s) and self.strip(inner(s)[0]).get("kind") == "CallExpr" and \
+                self.callee_name(inner(self.strip(inner(s)[0]))[0]) in self.opaque:
+            call, outs_, _ = self.opaque_call(self.strip(inner(s)[0]))
+            if outs_:
+                code = "let r__ := %s\n" % call
+                for i_, o_ in enumerate(outs_):
+                    code += "let %s := r__%s\n" % (o_, ".2" * (i_ + 1) + (".1" if i_ < len(outs_) - 1 else ""))
+                return code + self.ret("r__.1")
+            return self.ret(call)
         if k == "ReturnStmt":
             kids = inner(s)
             if not kids:
                 return self.ret(None) if self.outs else self.ret("()")
+            if self.ret_type == "Nat" and is_pointer(qual(kids[0])):
+                return self.ret(self.ptr_path(kids[0], s))
+            if value_record(qual(kids[0])) and len(self.subst) == 1:
+                return self.ret(self.record_value(kids[0], s))
             return self.ret(self.expr(kids[0]))
         if k == "BreakStmt":
             if k_break is None:
                 self.err(s, "break outside switch")
             return k_break()
+        if k == "DoStmt" and not self.flatten([inner(s)[0]]) and self.strip(inner(s)[1]).get("kind") == "IntegerLiteral" \
+                and self.strip(inner(s)[1]).get("value") == "0":
+            return cont()       # `do {} while (0)`: an empty statement macro
+        if k == "ContinueStmt" and self.frag_is_loop_body:
+            return self.ret(None)
+        if k in ("WhileStmt", "ForStmt", "DoStmt", "CXXForRangeStmt") and self.skel:
+            return self.loop_havoc(s) + cont()
+        if k in ("CallExpr", "CXXMemberCallExpr") and self.skel and self.callee_name(inner(s)[0]) != "DoError":
+            return self.action(s, s) + cont()
         if k == "DeclStmt":
             code = ""
             for v in inner(s):
@@ -601,16 +1147,62 @@ class Fn:
                     self.locals_.add(nm)
                     code += "let %s := %s\n" % (nm, self.expr(self.strip(init[0])))
                     continue
+                if "&" in v.get("type", {}).get("qualType", "") and init and not is_pointer(qual(v)) and self.is_record(init[0]):
+                    self.aliases[nm] = self.alias_target(init[0], v)      # `OutRec& outrec = *e1.outrec;`
+                    continue
+                if is_pointer(qual(v)):
+                    # a pointer local is not a value of the model: it *names* a record (flow-sensitively)
+                    self.aliases.pop(nm, None)
+                    i0 = self.strip_ptr(init[0]) if init else None
+                    if self.skel and i0 is not None and (i0.get("kind") == "CXXNewExpr" or (
+                            i0.get("kind") in ("CallExpr", "CXXMemberCallExpr") and not self.is_accessor_call(i0))):
+                        # the result of an untranslated callee / of `new`: a record the function did not receive
+                        code += self.action(i0, v, result=nm)
+                        self.aliases[nm] = nm
+                        self.roots.add(nm)
+                        continue
+                    if init:
+                        tgt = self.alias_target(init[0], v)
+                        if tgt is None:
+                            self.err(v, "pointer local initialised with nullptr")
+                        self.aliases[nm] = tgt
+                    continue
+                if value_record(qual(v)):
+                    # a record held by value in a local: one scalar local per field
+                    flds = value_record(qual(v))
+                    vals = None
+                    if init:
+                        c0 = self.strip(init[0]) if init[0].get("kind") != "CXXConstructExpr" else init[0]
+                        if not (c0.get("kind") == "CXXConstructExpr" and not inner(c0)):
+                            vals = self.record_fields(init[0], v)
+                    self.local_records[nm] = flds
+                    for i_, (f_, t_) in enumerate(flds):
+                        code += "let %s_%s : %s := %s\n" % (nm, f_, t_, vals[i_] if vals else "default")
+                        self.locals_.add("%s_%s" % (nm, f_))
+                    continue
                 ty = lean_type(qual(v))
                 if init:
                     code += "let %s : %s := %s\n" % (nm, ty, self.expr(init[0]))
                 else:
                     code += "let %s : %s := default\n" % (nm, ty)
                 self.locals_.add(nm)
+                self.local_types[nm] = ty
             return code + cont()
         if k in ("BinaryOperator", "CompoundAssignOperator"):
             op = s["opcode"]
             lhs, rhs = inner(s)
+            if op == "=" and is_pointer(qual(lhs)) and self.strip_ptr(lhs).get("kind") == "DeclRefExpr" and \
+                    self.strip_ptr(lhs)["referencedDecl"]["kind"] == "VarDecl":
+                tgt = self.alias_target(rhs, s)
+                if tgt is None:
+                    self.err(s, "pointer local set to nullptr")
+                self.aliases[self.strip_ptr(lhs)["referencedDecl"]["name"]] = tgt
+                return cont()
+            l0 = lhs
+            while l0.get("kind") == "ParenExpr":
+                l0 = inner(l0)[0]
+            if self.skel and l0.get("kind") == "MemberExpr" and self.local_record_field(l0) is None:
+                return self.member_write(s, op, l0, rhs) + cont()
             tgt = self.lvalue(lhs)
             if op == "=":
                 return "let %s := %s\n" % (tgt, self.expr(rhs)) + cont()
@@ -623,15 +1215,29 @@ class Fn:
                     return "let %s := %s %s %s\n" % (tgt, fn, tgt, self.expr(rhs)) + cont()
                 return "let %s := %s %s %s\n" % (tgt, tgt, lop, self.expr(rhs)) + cont()
             self.err(s, "statement operator " + op)
+        if k == "UnaryOperator" and s.get("opcode") in ("++", "--") and self.skel and \
+                self.strip_ptr(inner(s)[0]).get("kind") == "MemberExpr":
+            one = {"kind": "IntegerLiteral", "value": "1", "type": {"qualType": "int"}}
+            return self.member_write(s, "+=" if s["opcode"] == "++" else "-=", self.strip_ptr(inner(s)[0]), one) + cont()
         if k == "UnaryOperator" and s.get("opcode") in ("++", "--"):
             tgt = self.lvalue(inner(s)[0])
             return "let %s := %s %s 1\n" % (tgt, tgt, "+" if s["opcode"] == "++" else "-") + cont()
+        if k in ("IfStmt", "SwitchStmt") and self.skel and self.inline_depth == 0 and id(s) not in self.in_phi and \
+                (rest or k_norm is not None):
+            if not self.probing_exit(s):
+                merged = self.phi(s)
+                if merged is not None:
+                    return merged + cont()
+            elif not self.probing_exit(s, returns=False):
+                merged = self.phi(s, cont)      # several paths fall through, others `return`
+                if merged is not None:
+                    return merged
         if k == "IfStmt":
             kids = inner(s)
             c = self.expr(kids[0])
-            saved = set(self.locals_)
+            saved = self.snapshot()
             a = self.stmts([kids[1]], cont, k_break)
-            self.locals_ = set(saved)
+            self.restore(saved)
             b = self.stmts([kids[2]], cont, k_break) if len(kids) > 2 else cont()
             return "if %s then\n%s\nelse\n%s" % (c, indent(a), indent(b))
         if k == "SwitchStmt":
@@ -644,9 +1250,339 @@ class Fn:
                     self.err(s, "DoError in a function not declared as throwing")
                 return "if exc then .error %s else\n%s" % (code, cont())
             self.err(s, "call statement " + str(nm))
+        if k == "CXXOperatorCallExpr" and self.callee_name(inner(s)[0]) == "operator=" and len(inner(s)) == 3 and \
+                self.strip_ptr(inner(s)[1]).get("kind") == "DeclRefExpr" and \
+                self.strip_ptr(inner(s)[1])["referencedDecl"]["name"] in self.rec_outs:
+            nm = self.strip_ptr(inner(s)[1])["referencedDecl"]["name"]
+            vals = self.record_fields(inner(s)[2], s)
+            return "".join("let %s_%s := %s\n" % (nm, f_, v_) for (f_, _), v_ in zip(self.rec_outs[nm], vals)) + cont()
         if k in ("ExprWithCleanups",):
             return self.stmts(inner(s) + rest, k_norm, k_break)
         self.err(s)
+
+    def probing_exit(self, s, returns=True):
+        """can control leave the statement other than by falling off its end (`returns=False`: … or by `return`)?"""
+        def walk(x, in_switch, in_loop):
+            k = x.get("kind")
+            if k == "ReturnStmt":
+                return returns
+            if k == "BreakStmt" and not (in_switch or in_loop):
+                return True
+            if k == "ContinueStmt" and not in_loop:
+                return True
+            if k in ("LambdaExpr",):
+                return False
+            sw = in_switch or k == "SwitchStmt"
+            lp = in_loop or k in ("WhileStmt", "ForStmt", "DoStmt", "CXXForRangeStmt")
+            return any(walk(c, sw, lp) for c in inner(x))
+        return walk(s, False, False)
+
+    def phi(self, s, cont=None):
+        """skeleton mode: an `if` / `switch` that always falls through is translated as an expression producing the values it
+        assigns (locals, scalar members, the log), instead of copying the rest of the function into every branch.
+        None if the branches re-point pointer locals / pointer members differently (then the continuation is copied)."""
+        self.in_phi.add(id(s))
+        hook = self.exit_hook
+        try:
+            return self.phi_(s, cont)
+        finally:
+            self.exit_hook = hook
+            self.in_phi.discard(id(s))
+
+    def phi_(self, s, cont=None):
+        """`cont` given: the statement also contains `return`s.  Its value then starts with a flag "returned" (and the returned
+        value, for a non-void function), and the rest of the function follows once, under `if ¬ returned`."""
+        snap = self.snapshot()
+        seen = {"locals": set(), "members": set(), "acts": False, "ok": True, "clock": snap[5], "ver": dict(snap[4]),
+                "falls": 0}
+        base_assigned = set(self.assigned)
+        outer_hook = self.exit_hook
+        vty = self.frag_ret if self.frag_exits else (self.ret_type if self.ret_type != "Unit" else None)
+        with_ret = cont is not None and vty is not None
+
+        def probe(fell=True):
+            if fell:
+                seen["falls"] += 1
+            if self.aliases != snap[1] or self.path_alias != snap[2]:
+                seen["ok"] = False
+            seen["locals"].update(x for x in self.assigned if x in snap[0] or x in self.free_locals or x in self.outs)
+            seen["members"].update(l for l in self.wrote if self.wrote[l] != snap[3].get(l))
+            seen["acts"] = seen["acts"] or self.acts_dirty
+            seen["clock"] = max(seen["clock"], self.clock)
+            for m_, v_ in self.ver.items():
+                if v_[0] > seen["ver"].get(m_, (0, 0))[0]:
+                    seen["ver"][m_] = v_
+            return ""
+
+        self.assigned, self.acts_dirty = set(), False
+        self.dry += 1
+        if cont is not None:
+            self.exit_hook = lambda e: probe(False)
+        try:
+            self.stmts([s], probe, None)
+        finally:
+            self.dry -= 1
+            self.exit_hook = outer_hook
+            self.restore(snap)
+        if not seen["ok"] or (cont is not None and seen["falls"] < 2):
+            self.assigned = base_assigned
+            return None
+        vs = [(x, self.local_types[x]) for x in sorted(seen["locals"])] + \
+             [(l, self.written_all[l]) for l in sorted(seen["members"])] + \
+             ([("acts", "List (String × List Int)")] if seen["acts"] else [])
+        pre = ([("returned", "Bool")] + ([("retval", vty)] if with_ret else [])) if cont is not None else []
+
+        def value(exited=None, e=None):
+            out = []
+            if cont is not None:
+                out.append("true" if exited else "false")
+                if with_ret:
+                    out.append(e if exited else "default")
+            for x, _ in vs:
+                out.append(self.scalar_now(x) if x in seen["members"] else x)
+            return "(" + ", ".join(out) + ")" if len(out) != 1 else out[0]
+
+        self.assigned, self.acts_dirty = set(), False
+        if cont is not None:
+            self.exit_hook = lambda e: value(True, e)
+        body = self.stmts([s], value, None) if (vs or pre) else ""
+        self.exit_hook = outer_hook
+        vs = pre + vs
+        self.restore(snap)
+        self.assigned = base_assigned | seen["locals"]
+        self.acts_dirty = self.acts_dirty or seen["acts"]
+        self.clock = seen["clock"] + 1
+        self.ver = dict(seen["ver"])
+        for l in seen["members"]:
+            self.wrote[l] = self.clock
+        if not vs:
+            return ""
+        idx = self.phis.setdefault(s.get("id", id(s)), len(self.phis) + 1)
+        for x in seen["locals"]:
+            self.local_ver[x] = "%s_m%d" % (x, idx)
+        ty = vs[0][1] if len(vs) == 1 else "(%s)" % " × ".join(t for _, t in vs)
+        body = self.aux_def(body, ty, s, exits=cont is not None)
+        if len(vs) == 1 and cont is None:
+            return "let %s : %s := %s\n" % (vs[0][0], vs[0][1], body)
+        code = "let phi%d : %s := %s\n" % (idx, ty, body)
+        for i, (x, t) in enumerate(vs):
+            proj = ".2" * i + (".1" if i < len(vs) - 1 else "")
+            if x not in ("returned", "retval") or cont is None:
+                code += "let %s : %s := phi%d%s\n" % (x, t, idx, proj)
+        if cont is None:
+            return code
+        if len(vs) == 1:
+            flag, rv = "phi%d" % idx, None
+        else:
+            flag, rv = "phi%d.1" % idx, ("phi%d.2.1" % idx if len(vs) > 2 else "phi%d.2" % idx)
+        if outer_hook is not None:
+            exit_code = outer_hook(rv if with_ret else None)     # inside another merged statement: its way of returning
+        else:
+            exit_code = self.ret(rv if with_ret else None)
+        snap2 = self.snapshot()
+        rest_code = cont()
+        self.restore(snap2)
+        return code + "if %s then\n%s\nelse\n%s" % (flag, indent(exit_code), indent(rest_code))
+
+    def aux_def(self, body, ty, s, exits=False):
+        """the value computed by a merged `if` / `switch` becomes an auxiliary definition `<function>.m<k>` of its own (its
+        parameters: what the block reads from its surroundings), so that theorems can be stated about one block at a time"""
+        if self.dry > 0:
+            return "(" + body.replace("\n", " ") + ")"
+        env = dict(self.params)
+        env.update(self.members)
+        env.update(self.free_locals)
+        env.update(self.local_types)
+        env.update(self.written_all)
+        env.update(self.opaque_sigs)
+        env["acts"] = "List (String × List Int)"
+        free = free_idents(body, env)
+        key = (body, tuple(free), ty)
+        if key not in self.aux_keys:
+            name = "%s.m%d" % (self.lean_name, len(self.aux) + 1)
+            self.aux_keys[key] = name
+            binders = (DBL_BINDERS + " " if _DBL[0] else "") + " ".join("(%s : %s)" % (x, env[x]) for x in free)
+            what = "switch" if s.get("kind") == "SwitchStmt" else "if"
+            how = "a fall-through `%s` of C++ `%s`: the values it assigns" % (what, self.cname)
+            if exits:
+                how = "a `%s` of C++ `%s` with `return`s: (returned?, %sthe values it assigns)" % (
+                    what, self.cname, "the value returned, " if self.ret_type != "Unit" else "")
+            self.aux.append("/-- %s -/\ndef %s %s : %s :=\n%s\n" % (how, name, binders, ty, indent(body)))
+        return "(%s %s)" % (self.aux_keys[key], " ".join(free)) if free else self.aux_keys[key]
+
+    def log_act(self, tag, dyn=()):
+        self.uses_acts = True
+        self.acts_dirty = True
+        return 'let acts := acts ++ [("%s", [%s])]\n' % (tag, ", ".join(dyn))
+
+    def as_int(self, e, ty, ctx):
+        if ty == "Int":
+            return e
+        if ty == "Bool":
+            return "(if %s then (1 : Int) else 0)" % e
+        if ty == "UInt64":
+            return "(Clipper.Gen.ofU64 %s)" % e
+        if ty.startswith("Clipper."):
+            return "(Clipper.Gen.enumToInt %s)" % e
+        self.err(ctx, "argument of type %s in a logged call" % ty)
+
+    def havoc(self, site, names):
+        """an opaque step (untranslated callee, loop) may assign the members `names` of any record"""
+        self.clock += 1
+        idx = self.sites.setdefault(site.get("id", id(site)), len(self.sites) + 1)
+        for m_ in names:
+            self.ver[m_] = (self.clock, idx)
+        return idx
+
+    def action(self, call, ctx, result=None):
+        """skeleton mode: a call of a function that is not translated.  It is appended to the log `acts` as
+        (`name(record arguments…)`, [scalar arguments…]) and every member it may assign (transitively, by name: see
+        `mod_analysis`) is unknown afterwards."""
+        if call.get("kind") == "CXXNewExpr":
+            t = strip_type(qual(call)).rstrip("*").strip().split("::")[-1]
+            return self.log_act("%snew %s" % ((result + " := ") if result else "", t))
+        kids = inner(call)
+        nm = self.callee_name(kids[0])
+        if nm is None:
+            self.err(ctx, "call through an expression")
+        tags, dyn = [], []
+        for a in kids[1:]:
+            if a.get("kind") == "CXXDefaultArgExpr":
+                tags.append("default")
+            elif self.is_record(a) and self.elem_arg(a) is not None:
+                base, ix = self.elem_arg(a)
+                tags.append(base + "[·]")
+                dyn.append(self.as_int(self.expr(ix), lean_type(qual(ix)), ctx))
+            elif self.is_record(a):
+                t = self.alias_target(a, ctx)
+                tags.append(t if t is not None else "nullptr")
+            else:
+                tags.append("·")
+                dyn.append(self.as_int(self.expr(a), lean_type(qual(a)), ctx))
+        code = ""
+        if nm not in self.pure:
+            code = self.log_act("%s%s(%s)" % ((result + " := ") if result else "", nm, ",".join(tags)), dyn)
+        if nm not in self.modsets and nm not in self.pure:
+            self.err(ctx, "call of %s: no body in the translation unit to derive its effects from" % nm)
+        self.havoc(call, self.modsets.get(nm, ()))
+        return code
+
+    def elem_arg(self, a):
+        """`vec[i]` passed as a record: (name of the container, index expression)"""
+        cur = self.strip_ptr(a)
+        while cur.get("kind") in ("CXXConstructExpr", "MaterializeTemporaryExpr", "ExprWithCleanups") and len(inner(cur)) == 1:
+            cur = self.strip_ptr(inner(cur)[0])
+        if cur.get("kind") == "CXXOperatorCallExpr" and self.callee_name(inner(cur)[0]) == "operator[]" and len(inner(cur)) == 3:
+            base = self.member_path_noreg(inner(cur)[1])
+            if base is not None:
+                return base, inner(cur)[2]
+        return None
+
+    def member_write(self, s, op, lhs, rhs):
+        """skeleton mode: assignment through a member path.  A scalar member becomes a shadowing `let` of the location's name
+        and a result of the generated function; a pointer member is logged (`location := record`) and later reads through
+        that location follow the new target."""
+        c = self.chain(lhs)
+        if c is None:
+            self.err(s, "assignment target not rooted at a parameter")
+        loc = self.resolve(c[0], c[1], location=True)
+        if is_pointer(qual(lhs)):
+            if op != "=":
+                self.err(s, "pointer arithmetic")
+            r0 = self.strip_ptr(rhs)
+            code = ""
+            if r0.get("kind") == "CXXNewExpr" or (r0.get("kind") in ("CallExpr", "CXXMemberCallExpr") and not self.is_accessor_call(r0)):
+                # the result of an untranslated callee: a record this function did not receive
+                idx = self.sites.setdefault(r0.get("id", id(r0)), len(self.sites) + 1)
+                tgt = "%s_ret%d" % (self.callee_name(inner(r0)[0]) if r0.get("kind") != "CXXNewExpr" else "new", idx)
+                code = self.action(r0, s, result=tgt)
+                self.roots.add(tgt)
+            else:
+                tgt = self.alias_target(rhs, s)
+            code += self.log_act("%s := %s" % (loc, tgt if tgt is not None else "nullptr"))
+            self.path_alias[loc] = (tgt, self.clock)
+            return code
+        if value_record(qual(lhs)):
+            if op != "=":
+                self.err(s, "compound assignment to a record")
+            vals = self.record_fields(rhs, s)
+            code = ""
+            for (f_, t_), v_ in zip(value_record(qual(lhs)), vals):
+                lf = "%s_%s" % (loc, f_)
+                code += "let %s : %s := %s\n" % (lf, t_, v_)
+                self.written_all[lf] = t_
+                self.member_parts.setdefault(lf, (c[0], c[1] + [part(f_, None)], None))
+            for (f_, t_) in value_record(qual(lhs)):
+                self.wrote["%s_%s" % (loc, f_)] = self.clock
+            return code
+        ty = lean_type(qual(lhs))
+        e = self.expr(rhs)
+        if op != "=":
+            m = {"|=": "|||", "&=": "&&&", "+=": "+", "-=": "-", "*=": "*"}
+            if op not in m or (m[op] in ("|||", "&&&") and ty == "Int"):
+                self.err(s, "statement operator " + op)
+            cur = self.resolve(c[0], c[1])
+            if cur != loc or loc not in self.wrote:
+                self.members[cur] = ty
+            e = "%s %s %s" % (cur, m[op], e)
+        self.wrote[loc] = self.clock
+        self.written_all[loc] = ty
+        self.member_parts.setdefault(loc, (c[0], list(c[1]), None))
+        return "let %s : %s := %s\n" % (loc, ty, e)
+
+    def loop_havoc(self, s):
+        """skeleton mode: a loop is not unrolled.  Whatever it may assign (locals, members, through callees) is a fresh
+        unknown `…_after<k>` afterwards; nothing is assumed about the exit condition."""
+        names, scalars, ptrs, calls = set(), {}, set(), set()
+
+        def scan(x):
+            k = x.get("kind")
+            if (k in ("BinaryOperator", "CompoundAssignOperator") and x.get("opcode", "").endswith("=") and
+                    x.get("opcode") not in ("==", "!=", "<=", ">=")) or (k == "UnaryOperator" and x.get("opcode") in ("++", "--")):
+                l = self.strip_ptr(inner(x)[0])
+                if l.get("kind") == "MemberExpr":
+                    names.add(l.get("referencedMemberDecl") or l["name"])
+                elif l.get("kind") == "DeclRefExpr" and l["referencedDecl"]["kind"] in ("VarDecl", "ParmVarDecl"):
+                    if is_pointer(qual(l)):
+                        ptrs.add(l["referencedDecl"]["name"])
+                    else:
+                        scalars[l["referencedDecl"]["name"]] = qual(l)
+                else:
+                    names.update(member_names(l))
+            if k in ("CallExpr", "CXXMemberCallExpr"):
+                nm = self.callee_name(inner(x)[0])
+                if nm is not None:
+                    calls.add(nm)
+            for c in inner(x):
+                scan(c)
+
+        body = inner(s)
+        if s.get("kind") == "ForStmt" and body and body[0].get("kind") == "DeclStmt":
+            self.err(s, "for loop with a declaration in skeleton mode")
+        scan(s)
+        for c_ in calls:
+            names.update(self.modsets.get(c_, ()))
+        idx = self.havoc(s, names)
+        code = ""
+        opaque = sorted(c_ for c_ in calls if c_ in self.modsets and c_ not in self.pure and c_ not in self.known and
+                        c_ not in self.accessors)
+        if opaque:
+            code += self.log_act("loop%d{%s}" % (idx, ",".join(opaque)))      # calls made an unknown number of times
+        for nm, t in sorted(scalars.items()):
+            if nm in self.locals_ or nm in self.free_locals or nm in [p_ for p_, _ in self.params]:
+                fresh = "%s_after%d" % (nm, idx)
+                self.members[fresh] = lean_type(t)
+                code += "let %s : %s := %s\n" % (nm, lean_type(t), fresh)
+                self.assigned.add(nm)
+                self.local_ver[nm] = fresh
+                self.local_types[nm] = lean_type(t)
+                if nm in self.free_locals:
+                    self.free_assigned[nm] = self.free_locals[nm]
+        for nm in sorted(ptrs):
+            fresh = "%s_after%d" % (nm, idx)
+            self.aliases[nm] = fresh
+            self.roots.add(fresh)
+        return code
 
     def strip(self, n):
         while n.get("kind") in ("ExprWithCleanups", "MaterializeTemporaryExpr", "ImplicitCastExpr", "CXXConstructExpr", "CXXBindTemporaryExpr") and len(inner(n)) == 1:
@@ -663,7 +1599,19 @@ class Fn:
                 nm = self.subst[-1].get(nm, nm)
                 if len(self.subst) == 1 and nm not in self.outs and nm in self.ref_params:
                     self.err(n, "assignment to reference parameter not registered as out: " + nm)
+                self.used_params.add(nm)
+                self.local_types[nm] = lean_type(qual(n))
+            elif rd["kind"] == "VarDecl" and self.frag is not None and nm not in self.locals_:
+                self.free_locals[nm] = lean_type(qual(n))
+                self.free_assigned[nm] = self.free_locals[nm]
+                self.local_types[nm] = self.free_locals[nm]
+            self.assigned.add(nm)
+            self.local_ver[nm] = "%s_v%d" % (nm, self.asg_sites.setdefault(n.get("id", id(n)), len(self.asg_sites) + 1))
             return nm
+        if n.get("kind") == "MemberExpr":
+            lr = self.local_record_field(n)
+            if lr is not None:
+                return lr
         self.err(n, "assignment target")
 
     def switch(self, s, cont, k_break_outer):
@@ -685,9 +1633,12 @@ class Fn:
             elif k == "CaseStmt":
                 kk = inner(n)
                 lab = kk[0]
+                cval = lab.get("value") if lab.get("kind") == "ConstantExpr" else None
                 while lab.get("kind") in ("ConstantExpr", "ImplicitCastExpr"):
                     lab = inner(lab)[0]
-                if lab.get("kind") == "IntegerLiteral" and is_int:
+                if is_int and cval is not None and re.fullmatch(r"-?\d+", str(cval)):
+                    seq.append(("label", int(cval)))
+                elif lab.get("kind") == "IntegerLiteral" and is_int:
                     seq.append(("label", int(lab["value"])))
                 elif lab.get("kind") != "DeclRefExpr" or lab["referencedDecl"]["kind"] != "EnumConstantDecl":
                     self.err(n, "case label")
@@ -708,11 +1659,11 @@ class Fn:
         named = [nm for _, nm in labels if nm is not None]
         has_default = any(nm is None for _, nm in labels)
         arms = []
-        saved = set(self.locals_)
+        saved = self.snapshot()
         scr = self.expr(scrut)
 
         def from_index(i):
-            self.locals_ = set(saved)
+            self.restore(saved)
             tail = [x[1] for x in seq[i + 1:] if x[0] == "stmt"]
             return self.stmts(tail, cont, cont)
 
@@ -721,13 +1672,13 @@ class Fn:
                 i = [i for i, nm in labels if nm is None][0]
                 code = from_index(i)
             else:
-                self.locals_ = set(saved)
+                self.restore(saved)
                 code = cont()
             for i, nm in reversed(labels):
                 if nm is None:
                     continue
                 code = "if (decide (%s = (%d : Int))) then\n%s\nelse\n%s" % (scr, nm, indent(from_index(i)), indent(code))
-            self.locals_ = set(saved)
+            self.restore(saved)
             return code
         for i, nm in labels:
             if nm is None:
@@ -740,10 +1691,80 @@ class Fn:
             i = [i for i, nm in labels if nm is None][0]
             arms.append("| _ =>\n%s" % indent(from_index(i)))
         else:
-            self.locals_ = set(saved)
+            self.restore(saved)
             arms.append("| _ =>\n%s" % indent(cont()))
-        self.locals_ = set(saved)
+        self.restore(saved)
         return "match %s with\n%s" % (scr, "\n".join(arms))
+
+    def extra_binders(self):
+        """`dbl` mode: the abstract type of doubles with its order, and the opaque callees as function parameters"""
+        if not _DBL[0]:
+            return ""
+        out = DBL_BINDERS + " "
+        for nm in sorted(self.opaque_sigs):
+            out += "(%s : %s) " % (nm, self.opaque_sigs[nm])
+        return out
+
+    def translate_skeleton(self, body):
+        """skeleton / fragment mode.  Result of the generated function, in this order: the C++ return value (if any), the final
+        value of every scalar member the code assigns (alphabetically by flattened name), assigned reference parameters,
+        assigned locals declared outside a fragment, and the log `acts` of untranslated calls and pointer assignments."""
+        self.skel = True
+        is_expr = False
+        if self.frag is not None:
+            sel = select_fragment(body, self.frag, self.lean_name)
+            self.frag_is_loop_body = self.frag[-1] == "body"
+            if sel.get("kind", "").endswith("Stmt"):
+                stmts = [sel]
+                self.ret_type = "Unit"
+                if self.probing_exit(sel) and not self.probing_exit(sel, returns=False):
+                    # the fragment may `return` from the function: its result starts with (returned?, value returned)
+                    self.frag_exits = True
+                    rt = self.node["type"]["qualType"].split("(")[0].strip()
+                    self.frag_ret = None if rt == "void" else lean_type(rt)
+            else:
+                is_expr = True
+                stmts = [{"kind": "ReturnStmt", "inner": [sel]}]
+                self.ret_type = lean_type(qual(sel))
+        else:
+            stmts = inner(body)
+        keep = (list(self.params), set(self.roots), list(self.outs))
+
+        def run():
+            self.params, self.roots, self.outs = list(keep[0]), set(keep[1]), list(keep[2])
+            self.members, self.member_parts = {}, dict((k_, v_) for k_, v_ in self.member_parts.items() if k_ in self.written_all)
+            self.locals_, self.aliases, self.local_records = set(), {}, {}
+            self.path_alias, self.wrote, self.ver, self.clock, self.sites = {}, {}, {}, 0, {}
+            self.local_ver, self.asg_sites = {}, {}
+            self.used_params = set()
+            return self.stmts(stmts, None, None)
+
+        self.dry = 1
+        run()            # first pass: which members / outer locals are assigned, is anything logged
+        self.dry = 0
+        self.aux, self.aux_keys = [], {}
+        code = run()
+        if self.uses_acts:
+            code = "let acts : List (String × List Int) := []\n" + code
+        params = list(self.params)
+        if self.frag is not None:
+            params = [(a, b) for a, b in params if a in self.used_params or a in self.outs]
+        allp = params + sorted(list(self.members.items()) + list(self.free_locals.items()))
+        parts = ([self.ret_type] if self.ret_type != "Unit" else [])
+        if self.frag_exits:
+            parts = ["Bool"] + ([] if self.frag_ret is None else [self.frag_ret])
+        parts += [self.written_all[loc] for loc in sorted(self.written_all)]
+        parts += [dict(self.params)[o] for o in self.outs] + [self.free_assigned[x] for x in sorted(self.free_assigned)]
+        if self.uses_acts:
+            parts.append("List (String × List Int)")
+        rty = "Unit" if not parts else ("(" + " × ".join(parts) + ")" if len(parts) > 1 else parts[0])
+        names = ((["returned"] + ([] if self.frag_ret is None else ["value returned"])) if self.frag_exits else
+                 (["result"] if self.ret_type != "Unit" else [])) + sorted(self.written_all) + list(self.outs) + \
+            sorted(self.free_assigned) + (["acts"] if self.uses_acts else [])
+        self.result_names = names
+        binders = "".join(" (%s : %s)" % (a, b) for a, b in allp)
+        xb = self.extra_binders()
+        return "def %s%s%s : %s :=\n%s\n" % (self.lean_name, (" " + xb.strip()) if xb else "", binders, rty, indent(code)), allp
 
     # ---- whole function
     def translate(self):
@@ -751,9 +1772,20 @@ class Fn:
         ps = [c for c in inner(n) if c.get("kind") == "ParmVarDecl"]
         body = [c for c in inner(n) if c.get("kind") == "CompoundStmt"][0]
         self.locals_ = set()
+        self.aliases = {}               # pointer / record-reference local -> path of the record it currently denotes
+        self.local_records = {}
         self.ref_params = set()
         rt = n["type"]["qualType"].split("(")[0].strip()
-        self.ret_type = "Unit" if rt == "void" else lean_type(rt)
+        if rt == "void":
+            self.ret_type = "Unit"
+        elif is_pointer(rt):
+            self.ret_type = "Nat"       # a pointer result: which record (see `ptr_path`)
+        elif value_record(rt):
+            self.ret_type = "(" + " × ".join(t_ for _, t_ in value_record(rt)) + ")"
+        elif self.frag is not None:
+            self.ret_type = "Unit"      # the result of a fragment is what it assigns (or the selected expression)
+        else:
+            self.ret_type = lean_type(rt)
         # which reference params are assigned?  (pre-scan)
         assigned = set()
 
@@ -761,6 +1793,12 @@ class Fn:
             if not isinstance(x, dict):
                 return
             if x.get("kind") in ("BinaryOperator", "CompoundAssignOperator") and x.get("opcode", "").endswith("=") and x.get("opcode") not in ("==", "!=", "<=", ">="):
+                l = inner(x)[0]
+                while l.get("kind") == "ParenExpr":
+                    l = inner(l)[0]
+                if l.get("kind") == "DeclRefExpr" and l["referencedDecl"]["kind"] == "ParmVarDecl":
+                    assigned.add(l["referencedDecl"]["name"])
+            if x.get("kind") == "UnaryOperator" and x.get("opcode") in ("++", "--"):
                 l = inner(x)[0]
                 while l.get("kind") == "ParenExpr":
                     l = inner(l)[0]
@@ -775,6 +1813,13 @@ class Fn:
             try:
                 lt = lean_type(t)
             except TranslationError:
+                if _DBL[0] and value_record(t) and "&" in t and "const" not in t:
+                    # a record the function fills in (`Point64& ip`): its fields are parameters and results
+                    self.rec_outs[p["name"]] = value_record(t)
+                    for f_, t_ in value_record(t):
+                        self.params.append(("%s_%s" % (p["name"], f_), t_))
+                        self.outs.append("%s_%s" % (p["name"], f_))
+                self.roots.add(p["name"])
                 continue  # record parameter: reached through member paths
             self.params.append((p["name"], lt))
             if "&" in t and "const" not in t:
@@ -783,8 +1828,13 @@ class Fn:
                     self.outs.append(p["name"])
             elif p["name"] in assigned:
                 pass  # by-value parameter used as a local
+        for p in ps:
+            if p["name"] in self.roots and "&" in p["type"]["qualType"]:
+                self.ref_roots.add(p["name"])
+        if self.skel or self.frag is not None:
+            return self.translate_skeleton(body)
         code = self.stmts(inner(body), None, None)
-        allp = list(self.params) + sorted(self.members.items())
+        allp = list(self.params) + sorted((a, b) for a, b in self.members.items() if a not in dict(self.params))
         rty = self.ret_type
         if self.outs:
             outs_t = [dict(self.params)[o] for o in self.outs]
@@ -794,7 +1844,94 @@ class Fn:
             rty = "Except Int %s" % rty
             allp = [("exc", "Bool")] + allp
         binders = " ".join("(%s : %s)" % (a, b) for a, b in allp)
-        return "def %s %s : %s :=\n%s\n" % (self.lean_name, binders, rty, indent(code)), allp
+        return "def %s %s%s : %s :=\n%s\n" % (self.lean_name, self.extra_binders(), binders, rty, indent(code)), allp
+
+
+def select_fragment(body, frag, lean_name):
+    """the statement / condition of a function body that a `frag` selector names: a list of steps, each either
+    (`Kind`, k) = the k-th node of that kind in source order below the current one, or one of `body`, `cond`, `then`, `else`"""
+    cur = body
+    for step in frag:
+        if isinstance(step, tuple):
+            kind, ordinal = step
+            found = []
+
+            def walk(x, top=False):
+                if not top and x.get("kind") == kind:
+                    found.append(x)
+                for c in inner(x):
+                    walk(c)
+
+            walk(cur, True)
+            if ordinal >= len(found):
+                raise TranslationError("%s: fragment selector %s: only %d %s in the function" % (lean_name, frag, len(found), kind))
+            cur = found[ordinal]
+            continue
+        k = cur.get("kind")
+        kids = inner(cur)
+        if step == "body" and k in ("WhileStmt", "ForStmt", "CXXForRangeStmt"):
+            cur = kids[-1]
+        elif step == "body" and k == "DoStmt":
+            cur = kids[0]
+        elif step == "cond" and k in ("WhileStmt", "IfStmt"):
+            cur = kids[0]
+        elif step == "cond" and k == "DoStmt":
+            cur = kids[1]
+        elif step == "init" and k == "VarDecl" and kids:
+            cur = kids[-1]
+        elif step == "then" and k == "IfStmt":
+            cur = kids[1]
+        elif step == "else" and k == "IfStmt" and len(kids) > 2:
+            cur = kids[2]
+        else:
+            raise TranslationError("%s: fragment selector %s: no `%s` in a %s" % (lean_name, frag, step, k))
+    return cur
+
+
+def free_idents(code, env):
+    """names of `env` that occur free in a block of generated Lean (a sequence of `let x [: T] := e` lines, `if`/`match`
+    lines and nested, more indented blocks): in order of first occurrence"""
+    free = []
+    stack = [[-1, set(), []]]
+    for line in code.split("\n"):
+        if not line.strip():
+            continue
+        n = len(line) - len(line.lstrip())
+        while stack[-1][0] > n:
+            stack.pop()
+        if stack[-1][0] < n:
+            stack.append([n, set(stack[-1][1]), []])
+        top = stack[-1]
+        top[1].update(top[2])
+        top[2] = []
+        text = re.sub(r'"[^"]*"', '""', line.strip())
+        m = re.match(r"let ([A-Za-z_][\w']*)\s*(?::[^=]*?)?:=(.*)$", text)
+        bind = None
+        if m:
+            bind, text = m.group(1), m.group(2)
+        for m_ in re.finditer(r"(?<![\w.'])([A-Za-z_][\w']*)", text):
+            x = m_.group(1)
+            if x in env and x not in top[1] and x not in free:
+                free.append(x)
+        if bind is not None:
+            if text.strip():
+                top[1].add(bind)
+            else:
+                top[2].append(bind)     # the value is the following, more indented block: bound only after it
+    return free
+
+
+def member_names(n):
+    out = set()
+
+    def walk(x):
+        if x.get("kind") == "MemberExpr" and x.get("name"):
+            out.add(x.get("referencedMemberDecl") or x["name"])
+        for c in inner(x):
+            walk(c)
+
+    walk(n)
+    return out
 
 
 def indent(s, n=2):
@@ -833,18 +1970,174 @@ def int_consts(objs_by_name):
     return out
 
 
+_MOD_CACHE = {}
+
+
+def mod_analysis(objs):
+    """{function name: set of fields (clang ids of the FieldDecls) it may assign, directly or through callees with a body in
+    this dump}.  Functions by *name* (overloads are merged), fields by declaration (whichever record of that type);
+    an assignment `a->b.c = …` counts as a write of `c`, a non-const-looking use the
+    analysis cannot see through (a method of a member object without a body here, e.g. `vec_.push_back`) counts as a write
+    of that member object.  Used to decide which values read after an untranslated call are unknown."""
+    key = id(objs)
+    if key in _MOD_CACHE:
+        return _MOD_CACHE[key]
+    direct, calls, pend = {}, {}, {}
+
+    def strip(x):
+        while x.get("kind") in ("ParenExpr", "ImplicitCastExpr", "CStyleCastExpr") and inner(x):
+            x = inner(x)[0]
+        return x
+
+    def body_scan(fname, x):
+        k = x.get("kind")
+        if (k in ("BinaryOperator", "CompoundAssignOperator") and x.get("opcode", "").endswith("=") and
+                x.get("opcode") not in ("==", "!=", "<=", ">=")) or (k == "UnaryOperator" and x.get("opcode") in ("++", "--")):
+            l = strip(inner(x)[0])
+            if l.get("kind") == "MemberExpr":
+                direct[fname].add(l.get("referencedMemberDecl") or l["name"])
+            else:
+                direct[fname].update(member_names(l))
+        if k in ("CallExpr", "CXXMemberCallExpr", "CXXOperatorCallExpr"):
+            c = strip(inner(x)[0])
+            nm = None
+            if c.get("kind") == "DeclRefExpr":
+                nm = c["referencedDecl"].get("name")
+            elif c.get("kind") == "MemberExpr":
+                nm = c.get("name")
+                base = inner(c)[0] if inner(c) else {}
+                if strip(base).get("kind") != "CXXThisExpr":
+                    pend[fname].append((nm, member_names(base)))
+            if nm:
+                calls[fname].add(nm)
+        for c in inner(x):
+            body_scan(fname, c)
+
+    def walk(n):
+        if not isinstance(n, dict):
+            return
+        if n.get("kind") in ("FunctionDecl", "CXXMethodDecl", "CXXConstructorDecl") and n.get("name"):
+            bodies = [c for c in inner(n) if c.get("kind") == "CompoundStmt"]
+            if bodies:
+                nm = n["name"]
+                direct.setdefault(nm, set())
+                calls.setdefault(nm, set())
+                pend.setdefault(nm, [])
+                body_scan(nm, bodies[0])
+        for c in inner(n):
+            walk(c)
+
+    for o in objs:
+        walk(o)
+    for f, lst in pend.items():
+        for callee, names in lst:
+            if callee not in direct:
+                direct[f].update(names)
+    changed = True
+    while changed:
+        changed = False
+        for f in direct:
+            for c in calls[f]:
+                if c in direct and not direct[c] <= direct[f]:
+                    direct[f] |= direct[c]
+                    changed = True
+    _MOD_CACHE[key] = direct
+    return direct
+
+
+def operator_bodies(objs):
+    """clang id -> FunctionDecl of every `operator==` / `operator!=` with a body (inlined when applied to records)"""
+    out = {}
+
+    def walk(n):
+        if not isinstance(n, dict):
+            return
+        if n.get("kind") in ("FunctionDecl", "CXXMethodDecl") and n.get("name") in ("operator==", "operator!=") and \
+                any(c.get("kind") == "CompoundStmt" for c in inner(n)):
+            out[n.get("id")] = n
+        for c in inner(n):
+            walk(c)
+
+    for o in objs:
+        walk(o)
+    return out
+
+
+def bitmask_enum_values(objs):
+    """{enum name: {constant: value}} for the enums of BITMASK_ENUMS, read from the EnumDecl in the dump"""
+    out = {}
+
+    def const_value(n):
+        if n.get("kind") in ("ConstantExpr", "IntegerLiteral") and "value" in n:
+            return int(n["value"])
+        for c in inner(n):
+            v = const_value(c)
+            if v is not None:
+                return v
+        return None
+
+    def walk(n):
+        if not isinstance(n, dict):
+            return
+        if n.get("kind") == "EnumDecl" and n.get("name") in BITMASK_ENUMS:
+            vals, nxt = {}, 0
+            for c in inner(n):
+                if c.get("kind") == "EnumConstantDecl":
+                    v = const_value(c)
+                    v = nxt if v is None else v
+                    vals[c["name"]] = v
+                    nxt = v + 1
+            if vals:
+                out[n["name"]] = vals
+        for c in inner(n):
+            walk(c)
+
+    for o in objs:
+        walk(o)
+    return out
+
+
+def class_specialisations(objs, cls, arg):
+    """the ClassTemplateSpecializationDecl nodes `cls<arg>` (methods of a class template are looked up inside them)"""
+    out = []
+
+    def walk(n):
+        if not isinstance(n, dict):
+            return
+        if n.get("kind") == "ClassTemplateSpecializationDecl" and n.get("name") == cls:
+            targs = [c for c in inner(n) if c.get("kind") == "TemplateArgument"]
+            if targs and targs[0].get("type", {}).get("qualType") == arg:
+                out.append(n)
+            return
+        for c in inner(n):
+            walk(c)
+
+    for o in objs:
+        walk(o)
+    return out
+
+
+# definitions whose translation failure makes the whole unit fail (as before the bridge extension); every other definition
+# fails on its own
+UNIT_LEVEL_FAILURE = {"TriSign", "Multiply", "ProductsAreEqual", "CrossProductSign", "IsCollinear", "GetSign", "CheckPrecisionRange",
+                      "IsOdd", "IsContributingClosed", "IsContributingOpen", "PtsReallyClose", "LocMinSorter", "HorzSegSorter",
+                      "IntersectListSort", "IsValidAelOrder", "GetLocation", "GetAdjacentLocation", "HeadingClockwise", "AreOpposites",
+                      "GetEdgesForPt", "IsHeadingClockwise", "HasHorzOverlap", "HasVertOverlap"}
+CONTAINED_ERRORS = []
+
+
 def translate_unit(tu_text, specs, consts_names=(), extra_inc=None, inline_names=(), defines=(), externs=None, want_decls=False):
     """specs: list of dicts {c: C name, lean: lean name, types: substring of qualType or None, throws: bool}"""
     consts = {}
     if consts_names:
-        objs = {nm: clang_ast(tu_text, nm, extra_inc, defines) for nm in consts_names}
+        objs = {nm: named_subtrees(unit_ast(tu_text, extra_inc, defines), nm) for nm in consts_names}
         consts = int_consts(objs)
         for nm in consts_names:
             if nm not in consts:
                 raise TranslationError("cannot evaluate constant " + nm)
     inline_fns = {}
     for nm in inline_names:
-        b = find_bodies(clang_ast(tu_text, nm, extra_inc, defines), nm)
+        b = find_bodies(unit_ast(tu_text, extra_inc, defines), nm)
         if not b:
             raise TranslationError("no body for inline function " + nm)
         inline_fns[nm] = b[-1]
@@ -852,22 +2145,64 @@ def translate_unit(tu_text, specs, consts_names=(), extra_inc=None, inline_names
     out = []
     sigs = {}
     decls = {}
-    for sp in specs:
-        objs = clang_ast(tu_text, sp.get("filt", sp["c"]), extra_inc, defines)
+    known_ids = {}
+    overloads = {}
+    parts = {}
+    enum_values = bitmask_enum_values(unit_ast(tu_text, extra_inc, defines))
+    def translate_one(sp):
+        objs = unit_ast(tu_text, extra_inc, defines)
+        if "filt" in sp:
+            objs = named_subtrees(objs, sp["filt"])
+        if "scope" in sp:
+            objs = class_specialisations(objs, *sp["scope"])
         bodies = find_bodies(objs, sp["c"], sp.get("types"))
         if not bodies:
             raise TranslationError("function %s (%s) not found in current sources" % (sp["c"], sp.get("types")))
         node = bodies[-1]
         fn = Fn(node, sp["lean"], dict(known), consts, inline_fns, throws=sp.get("throws", False),
-                accessors=sp.get("accessors", ()), externs=externs)
-        code, params = fn.translate()
-        loc = node.get("loc", {})
-        out.append("/-- C++ `%s` : `%s` -/\n%s" % (sp["c"], node["type"]["qualType"], code))
+                accessors=sp.get("accessors", ()), externs=externs, enum_values=enum_values,
+                known_sigs={k: (sigs[k], decls[k], parts[k]) for k in sigs}, known_ids=dict(known_ids))
+        fn.overloads = dict(overloads)
+        fn.cname = sp.get("cname", sp["c"])
+        if sp.get("skel") or sp.get("frag") is not None:
+            fn.skel, fn.frag, fn.pure = True, sp.get("frag"), set(sp.get("pure", ()))
+            fn.modsets = mod_analysis(unit_ast(tu_text, extra_inc, defines))
+            fn.inline_ops = operator_bodies(unit_ast(tu_text, extra_inc, defines))
+        fn.opaque = set(sp.get("opaque", ()))
+        if sp.get("dbl") and not fn.inline_ops:
+            fn.inline_ops = operator_bodies(unit_ast(tu_text, extra_inc, defines))
+        _DBL[0] = bool(sp.get("dbl"))
+        try:
+            code, params = fn.translate()
+        finally:
+            _DBL[0] = False
+        doc = "C++ `%s` : `%s`" % (sp.get("cname", sp["c"]), node["type"]["qualType"])
+        if fn.result_names is not None:
+            doc += "%s; result = (%s)" % ((", part %s" % (sp["frag"],)) if sp.get("frag") is not None else " (skeleton)",
+                                          ", ".join(fn.result_names))
+        out.append("".join(a_ + "\n" for a_ in fn.aux) + "/-- %s -/\n%s" % (doc, code))
         known[sp["c"]] = sp["lean"]
+        overloads[sp["c"]] = overloads.get(sp["c"], 0) + 1
+        for b_ in bodies:
+            if b_.get("id"):
+                known_ids[b_["id"]] = sp["lean"]
         sigs[sp["lean"]] = params
+        parts[sp["lean"]] = dict(fn.member_parts)
         decls[sp["lean"]] = [c["name"] for c in inner(node) if c.get("kind") == "ParmVarDecl"]
+
+    for sp in specs:
+        try:
+            translate_one(sp)
+        except TranslationError as e:
+            if sp["lean"] in UNIT_LEVEL_FAILURE:
+                raise       # the long-standing decision functions: the whole unit becomes a file that does not compile
+            # a definition added for the bridge theorems: only this definition is missing from the generated file, so exactly
+            # the theorems that mention it stop compiling (the obligations of the properties built on that function)
+            CONTAINED_ERRORS.append({"function": sp["lean"], "error": str(e)})
+            out.append("/- cpp2lean: `%s` could NOT be translated from the current sources: %s -/\n" %
+                       (sp["lean"], str(e).replace("-/", "- /")))
     if want_decls:
-        return "\n".join(out), sigs, decls
+        return "\n".join(out), sigs, decls, parts
     return "\n".join(out), sigs
 
 
@@ -876,6 +2211,9 @@ namespace Clipper2Lib {
 template int CrossProductSign<int64_t>(const Point<int64_t>&, const Point<int64_t>&, const Point<int64_t>&);
 template bool IsCollinear<int64_t>(const Point<int64_t>&, const Point<int64_t>&, const Point<int64_t>&);
 template int GetSign<int64_t>(const int64_t&);
+template Point<int64_t> MidPoint<int64_t>(const Point<int64_t>&, const Point<int64_t>&);
+template struct Rect<int64_t>;
+template PointInPolygonResult PointInPolygon<int64_t>(const Point<int64_t>&, const Path<int64_t>&);
 }
 '''
 
@@ -887,6 +2225,19 @@ CORE_SPECS = [
     dict(c="IsCollinear", lean="IsCollinear", types="Point<long>"),
     dict(c="GetSign", lean="GetSign", types="const long &"),
     dict(c="CheckPrecisionRange", lean="CheckPrecisionRange", types="int &, int &", throws=True),
+    dict(c="MidPoint", lean="MidPoint", types="(const Point<long> &, const Point<long> &)"),
+    # methods of Rect64: the members of `*this` are the parameters `left top right bottom`
+    dict(c="IsEmpty", lean="RectIsEmpty", scope=("Rect", "long"), cname="Rect64::IsEmpty"),
+    dict(c="Contains", lean="RectContainsPt", scope=("Rect", "long"), types="const Point<long> &", cname="Rect64::Contains"),
+    dict(c="Contains", lean="RectContainsRect", scope=("Rect", "long"), types="const Rect<long> &", cname="Rect64::Contains"),
+    dict(c="Intersects", lean="RectIntersects", scope=("Rect", "long"), cname="Rect64::Intersects"),
+    dict(c="MidPoint", lean="RectMidPoint", scope=("Rect", "long"), cname="Rect64::MidPoint"),
+    dict(c="Width", lean="RectWidth", scope=("Rect", "long"), types="long () const", cname="Rect64::Width"),
+    dict(c="Height", lean="RectHeight", scope=("Rect", "long"), types="long () const", cname="Rect64::Height"),
+    # one vertex of PointInPolygon's main loop (`curr`, `prev` are the iterators): the on-the-line test and the crossing step;
+    # `CrossProduct` (double arithmetic) stays a function parameter
+    dict(c="PointInPolygon", lean="PointInPolygon_onLine", types="Point<long>", frag=[("IfStmt", 9), "cond"]),
+    dict(c="PointInPolygon", lean="PointInPolygon_cross", types="Point<long>", frag=[("IfStmt", 11)], dbl=True, opaque=("CrossProduct",)),
 ]
 
 ENGINE_TU = '''#include "clipper.engine.cpp"
@@ -902,6 +2253,52 @@ ENGINE_SPECS = [
     # pointer chasing (vertex ring, local minimum) is not followed: IsMaxima(e), NextVertex(e)->pt, PrevPrevVertex(e)->pt and
     # e.local_min->vertex->pt.y become parameters; CrossProductSign / IsCollinear are the definitions of unit Core
     dict(c="IsValidAelOrder", lean="IsValidAelOrder", accessors=("IsMaxima", "NextVertex", "PrevPrevVertex")),
+    # --- leaf predicates on Active / OutRec / OutPt / Vertex.  Pointers are not followed: a pointer used as a truth value is
+    # the Boolean `<path>_nonnull`, pointers compared with each other are `Nat` identities (`e_addr` = which record `e` is)
+    dict(c="IsHotEdge", lean="IsHotEdge"),
+    dict(c="IsOpen", lean="IsOpen"),
+    dict(c="IsOpenEnd", lean="IsOpenEndV", types="Vertex &"),
+    dict(c="IsOpenEnd", lean="IsOpenEnd", types="Active &"),
+    dict(c="IsFront", lean="IsFront"),
+    dict(c="IsInvalidPath", lean="IsInvalidPath"),
+    dict(c="IsHorizontal", lean="IsHorizontal"),
+    dict(c="GetPolyType", lean="GetPolyType"),
+    dict(c="IsSamePolyType", lean="IsSamePolyType"),
+    dict(c="NextVertex", lean="NextVertex"),
+    dict(c="PrevPrevVertex", lean="PrevPrevVertex"),
+    dict(c="IsMaxima", lean="IsMaximaV", types="Vertex &"),
+    dict(c="IsMaxima", lean="IsMaxima", types="Active &"),
+    dict(c="IsVerySmallTriangle", lean="IsVerySmallTriangle"),
+    dict(c="IsValidClosedPath", lean="IsValidClosedPath"),
+    dict(c="OutrecIsAscending", lean="OutrecIsAscending"),
+    dict(c="EdgesAdjacentInAEL", lean="EdgesAdjacentInAEL"),
+    dict(c="IsJoined", lean="IsJoined"),
+    dict(c="GetLastOp", lean="GetLastOp"),
+    # --- skeletons (see `translate_skeleton`): the decisions and the bookkeeping writes of functions that also call
+    # untranslated code; those calls and pointer assignments are logged in `acts`
+    dict(c="IntersectEdges", lean="IntersectEdges", skel=True, pure=("FindEdgeWithMatchingLocMin",)),
+    dict(c="SwapOutrecs", lean="SwapOutrecs", skel=True),
+    dict(c="SetSides", lean="SetSides", skel=True),
+    dict(c="AddLocalMinPoly", lean="AddLocalMinPoly", skel=True, pure=("GetPrevHotEdge",)),
+    dict(c="AddLocalMaxPoly", lean="AddLocalMaxPoly", skel=True, pure=("GetPrevHotEdge", "GetRealOutRec")),
+    dict(c="Split", lean="Split", skel=True),
+    dict(c="StartOpenPath", lean="StartOpenPath", skel=True),
+    dict(c="ResetHorzDirection", lean="ResetHorzDirection", skel=True),
+    dict(c="SetHorzSegHeadingForward", lean="SetHorzSegHeadingForward", skel=True),
+    # --- parts of functions built around a loop over the AEL: the loop condition, one iteration, the code between the loops
+    dict(c="SetWindCountForClosedPathEdge", lean="SetWindClosed_findCond", frag=[("WhileStmt", 0), "cond"]),
+    dict(c="SetWindCountForClosedPathEdge", lean="SetWindClosed_windCnt", frag=[("IfStmt", 0)]),
+    dict(c="SetWindCountForClosedPathEdge", lean="SetWindClosed_wc2StepEvenOdd", frag=[("WhileStmt", 1), "body"]),
+    dict(c="SetWindCountForClosedPathEdge", lean="SetWindClosed_wc2Step", frag=[("WhileStmt", 2), "body"]),
+    dict(c="SetWindCountForOpenPathEdge", lean="SetWindOpen_stepEvenOdd", frag=[("WhileStmt", 0), "body"]),
+    dict(c="SetWindCountForOpenPathEdge", lean="SetWindOpen_step", frag=[("WhileStmt", 1), "body"]),
+    dict(c="SetWindCountForOpenPathEdge", lean="SetWindOpen", skel=True),
+    dict(c="GetPrevHotEdge", lean="GetPrevHotEdge_cond", frag=[("WhileStmt", 0), "cond"]),
+    dict(c="TrimHorz", lean="TrimHorz_cond", frag=[("WhileStmt", 0), "cond"]),
+    dict(c="TrimHorz", lean="TrimHorz_break", frag=[("IfStmt", 0), "cond"]),
+    dict(c="BuildPath64", lean="BuildPath64_guard", frag=[("IfStmt", 0), "cond"]),
+    # the removal test of CleanCollinear's loop; `DotProduct` (double arithmetic) stays a function parameter
+    dict(c="CleanCollinear", lean="CleanCollinear_removable", frag=[("IfStmt", 2), "cond"], dbl=True, opaque=("DotProduct",)),
 ]
 # functions of unit Core that unit Engine calls with Point64 arguments
 ENGINE_EXTERNS = ("CrossProductSign", "IsCollinear")
@@ -917,6 +2314,23 @@ RECT_SPECS = [
     dict(c="IsHeadingClockwise", lean="IsHeadingClockwise"),
     dict(c="HasHorzOverlap", lean="HasHorzOverlap"),
     dict(c="HasVertOverlap", lean="HasVertOverlap"),
+    dict(c="IsHorizontal", lean="IsHorizontalPts"),      # (unit Engine has its own IsHorizontal(const Active&))
+    dict(c="AddCorner", lean="AddCorner1", types="(Clipper2Lib::Location, Clipper2Lib::Location)", skel=True),
+    dict(c="AddCorner", lean="AddCorner2", types="(Clipper2Lib::Location &, bool)", skel=True),
+    dict(c="StartLocsAreClockwise", lean="StartLocsAreClockwise_step", frag=[("ForStmt", 0), "body"]),
+    dict(c="GetNextLocation", lean="GetNextLocation", skel=True),
+    # --- with double arithmetic kept opaque: `CrossProduct` / `GetSegmentIntersectPt` are function parameters, doubles an abstract
+    # ordered type `D` (only compared with each other and with 0)
+    dict(c="IsClockwise", lean="IsClockwise", dbl=True, opaque=("CrossProduct",)),
+    dict(c="GetSegmentIntersection", lean="GetSegmentIntersection", dbl=True, opaque=("CrossProduct", "GetSegmentIntersectPt")),
+]
+
+OFFSET_TU = '''#include "clipper.offset.cpp"
+'''
+OFFSET_SPECS = [
+    dict(c="IsClosedPath", lean="IsClosedPath"),
+    dict(c="Group", lean="Group_isJoined", frag=[("VarDecl", 0), "init"], cname="ClipperOffset::Group::Group"),
+    dict(c="GetLowestClosedPathIdx", lean="GetLowestClosedPathIdx_skip", frag=[("IfStmt", 0), "cond"]),
 ]
 
 PORTABLE_COND = "#if (defined(__clang__) || defined(__GNUC__)) && UINTPTR_MAX >= UINT64_MAX"
@@ -970,11 +2384,13 @@ def generate(outdir):
     """Regenerate all generated Lean files.  Returns (report dict).  On a translation error the
     affected file is replaced by one that fails to compile with the message, so that the proof
     obligations depending on it are visibly broken."""
-    report = {"files": {}, "errors": []}
+    report = {"files": {}, "errors": [], "contained_errors": CONTAINED_ERRORS}
+    del CONTAINED_ERRORS[:]
     units = [
         ("Core", CORE_TU, CORE_SPECS, ("CLIPPER2_MAX_DEC_PRECISION", "precision_error_i"), None, ()),
         ("Engine", ENGINE_TU, ENGINE_SPECS, (), None, ("GetPolyType",)),
         ("RectClip", RECT_TU, RECT_SPECS, (), None, ()),
+        ("Offset", OFFSET_TU, OFFSET_SPECS, (), None, ()),
     ]
     with tempfile.TemporaryDirectory(prefix="cpp2lean_port") as pd:
         try:
@@ -982,7 +2398,7 @@ def generate(outdir):
             units.append(("Portable", PORTABLE_TU, PORTABLE_SPECS, (), pd, ()))
         except TranslationError as e:
             units.append(("Portable", None, str(e), (), None, ()))
-        core_sigs, core_decls = {}, {}
+        core_sigs, core_decls, core_parts = {}, {}, {}
         for name, tu, specs, consts, extra, inl in units:
             path = os.path.join(outdir, name + ".lean")
             ns = "Clipper.Gen" if name != "Portable" else "Clipper.Gen.Portable"
@@ -992,10 +2408,10 @@ def generate(outdir):
                 externs = None
                 if name == "Engine":
                     # unit Engine refers to the Core definitions by their qualified names (and imports that file)
-                    externs = {c: ("Clipper.Gen." + c, core_sigs[c], core_decls[c]) for c in ENGINE_EXTERNS if c in core_sigs}
-                body, sigs, decls = translate_unit(tu, specs, consts, extra, inl, externs=externs, want_decls=True)
+                    externs = {c: ("Clipper.Gen." + c, core_sigs[c], core_decls[c], core_parts[c]) for c in ENGINE_EXTERNS if c in core_sigs}
+                body, sigs, decls, uparts = translate_unit(tu, specs, consts, extra, inl, externs=externs, want_decls=True)
                 if name == "Core":
-                    core_sigs, core_decls = sigs, decls
+                    core_sigs, core_decls, core_parts = sigs, decls, uparts
                 text = PRELUDE.replace("namespace Clipper.Gen", "namespace " + ns) + "\n" + body + "\nend " + ns + "\n"
                 if name == "Engine":
                     text = text.replace("import ClipperVerif.Spec.Enums", "import ClipperVerif.Spec.Enums\nimport ClipperVerif.Generated.Core", 1)
